@@ -1,2 +1,1898 @@
 //! VM program generator and step-wise tracer (shared by the VM-family harness binaries).
 //! Documented in /verif/harness/VMTRACE.md.
+//!
+//! Layers (each usable on its own):
+//!   1. `World` / `TxSpec`      deployed contracts + consensus parameters + script tx builder
+//!   2. `RecStorage<S>`         recording `InterpreterStorage` wrapper (reads and writes)
+//!   3. `trace()` / `run_plain` single-stepped execution on the real `Interpreter` -> `Trace`
+//!   4. `Asm` / `assemble`      tiny label assembler for every jump instruction
+//!   5. `gen_scenario`          grammar-based program generator (seeded by `fvh::Rng`)
+//!   6. JSON / Coq printers
+#![allow(clippy::too_many_arguments)]
+use crate::Rng;
+use fuel_asm::{op, GMArgs, GTFArgs, Instruction, PanicReason, RegId};
+use fuel_storage::{
+    Mappable, StorageInspect, StorageMutate, StorageRead, StorageReadError, StorageSize, StorageWrite,
+};
+use fuel_tx::{
+    ConsensusParameters, GasCosts, GasCostsValues, Input, Output, Receipt, Script, TransactionBuilder, TxPointer, UtxoId,
+};
+use fuel_types::{canonical::Serialize as _, Address, AssetId, BlockHeight, Bytes32, ContractId, Nonce, Word};
+use fuel_vm::checked_transaction::{IntoChecked, Ready};
+use fuel_vm::consts::{MEM_SIZE, VM_REGISTER_COUNT};
+use fuel_vm::interpreter::{Interpreter, InterpreterParams, MemoryInstance};
+use fuel_vm::prelude::{Call, CallFrame};
+use fuel_vm::state::ProgramState;
+use fuel_vm::storage::{
+    BlobData, ContractsAssets, ContractsAssetsStorage, ContractsRawCode, ContractsState, InterpreterStorage,
+    MemoryStorage, UploadedBytecode, UploadedBytecodes,
+};
+use serde_json::{json, Value};
+use std::borrow::Cow;
+use std::cell::RefCell;
+use std::collections::{BTreeMap, BTreeSet};
+
+// =====================================================================================
+// 0. register conventions of generated code
+// =====================================================================================
+/// base pointer of the script data (set by every code unit's prologue with `gtf .. ScriptData`)
+pub const R_DATA: u8 = 0x3F;
+/// link register used by `jal` subroutines
+pub const R_LINK: u8 = 0x3E;
+/// loop counters for nesting levels 0..3
+pub const R_CNT: [u8; 3] = [0x3B, 0x3C, 0x3D];
+/// temporaries used by address idioms (never chosen as a random destination)
+pub const R_TMP: [u8; 7] = [0x34, 0x35, 0x36, 0x37, 0x38, 0x39, 0x3A];
+/// first/last general register available to random ALU code
+pub const R_GEN_LO: u8 = 0x10;
+pub const R_GEN_HI: u8 = 0x33;
+/// bytes every unit allocates in its prologue on the stack (`cfei`) and on the heap (`aloc`)
+pub const LOCAL: u32 = 1024;
+pub const HEAPSZ: u32 = 256;
+
+// =====================================================================================
+// 1. gas schedules, world, transaction
+// =====================================================================================
+#[derive(Clone, Debug, PartialEq, Eq)]
+pub enum GasSchedule {
+    Default,
+    Unit,
+    Free,
+    /// every fixed cost random in 0..=24 (rarely up to 5000); every dependent cost random
+    /// Light (units_per_gas >= 1) or Heavy (gas_per_unit 0..=3)
+    Random(u64),
+}
+impl GasSchedule {
+    pub fn name(&self) -> String {
+        match self {
+            GasSchedule::Default => "default".into(),
+            GasSchedule::Unit => "unit".into(),
+            GasSchedule::Free => "free".into(),
+            GasSchedule::Random(s) => format!("random:{s}"),
+        }
+    }
+    pub fn costs(&self) -> GasCosts {
+        match self {
+            GasSchedule::Default => GasCosts::default(),
+            GasSchedule::Unit => GasCosts::unit(),
+            GasSchedule::Free => GasCosts::free(),
+            GasSchedule::Random(seed) => {
+                let mut rng = Rng::new(*seed ^ 0x6a5c);
+                let v: GasCostsValues = GasCosts::default().into();
+                let mut j = serde_json::to_value(&v).expect("gas costs to json");
+                fn walk(v: &mut Value, rng: &mut Rng) {
+                    match v {
+                        Value::Number(_) => {
+                            let x = if rng.chance(1, 12) { rng.below(5000) } else { rng.below(25) };
+                            *v = json!(x);
+                        }
+                        Value::Object(m) => {
+                            if m.contains_key("LightOperation") || m.contains_key("HeavyOperation") {
+                                let base = if rng.chance(1, 10) { rng.below(3000) } else { rng.below(40) };
+                                *v = if rng.chance(2, 3) {
+                                    let upg = *rng.pick(&[1u64, 1, 2, 3, 7, 16, 64, 214, 1000, 3333]);
+                                    json!({"LightOperation": {"base": base, "units_per_gas": upg}})
+                                } else {
+                                    json!({"HeavyOperation": {"base": base, "gas_per_unit": rng.below(4)}})
+                                };
+                            } else {
+                                for (_, x) in m.iter_mut() {
+                                    walk(x, rng);
+                                }
+                            }
+                        }
+                        Value::Array(a) => a.iter_mut().for_each(|x| walk(x, rng)),
+                        _ => {}
+                    }
+                }
+                walk(&mut j, &mut rng);
+                let v: GasCostsValues = serde_json::from_value(j).expect("gas costs from json");
+                GasCosts::new(v)
+            }
+        }
+    }
+}
+
+/// One entry of a gas schedule as plain numbers.
+#[derive(Clone, Debug, PartialEq, Eq)]
+pub enum CostVal {
+    Fixed(u64),
+    Light { base: u64, units_per_gas: u64 },
+    Heavy { base: u64, gas_per_unit: u64 },
+}
+impl CostVal {
+    /// `DependentCost::resolve` / plain value (independent re-implementation, u128 arithmetic)
+    pub fn resolve(&self, units: u64) -> u64 {
+        let sat = |x: u128| if x > u64::MAX as u128 { u64::MAX } else { x as u64 };
+        match self {
+            CostVal::Fixed(x) => *x,
+            CostVal::Light { base, units_per_gas } => sat(*base as u128 + (units / (*units_per_gas).max(1)) as u128),
+            CostVal::Heavy { base, gas_per_unit } => sat(*base as u128 + sat(units as u128 * *gas_per_unit as u128) as u128),
+        }
+    }
+    pub fn base(&self) -> u64 {
+        match self {
+            CostVal::Fixed(x) => *x,
+            CostVal::Light { base, .. } | CostVal::Heavy { base, .. } => *base,
+        }
+    }
+    pub fn to_coq(&self) -> String {
+        match self {
+            CostVal::Fixed(x) => format!("(CFixed {x})"),
+            CostVal::Light { base, units_per_gas } => format!("(CLight {base} {units_per_gas})"),
+            CostVal::Heavy { base, gas_per_unit } => format!("(CHeavy {base} {gas_per_unit})"),
+        }
+    }
+}
+/// field name (as in `GasCostsValuesV7`, e.g. "add", "mod_op", "storage_read_cold") -> value
+pub fn cost_table(costs: &GasCosts) -> BTreeMap<String, CostVal> {
+    let v: GasCostsValues = costs.clone().into();
+    let j = serde_json::to_value(&v).expect("gas costs to json");
+    let mut out = BTreeMap::new();
+    let inner = j.as_object().and_then(|m| m.values().next()).and_then(|x| x.as_object()).cloned().unwrap_or_default();
+    for (k, x) in inner {
+        // serde renames of GasCostsValues back to the struct field names
+        let k = match k.as_str() { "mod" => "mod_op".to_string(), "move" => "move_op".to_string(), "ret_contract" => "ret".to_string(),
+            "rvrt_contract" => "rvrt".to_string(), "retd_contract" => "retd".to_string(), _ => k };
+        if let Some(n) = x.as_u64() {
+            out.insert(k, CostVal::Fixed(n));
+        } else if let Some(l) = x.get("LightOperation") {
+            out.insert(k, CostVal::Light { base: l["base"].as_u64().unwrap_or(0), units_per_gas: l["units_per_gas"].as_u64().unwrap_or(1) });
+        } else if let Some(h) = x.get("HeavyOperation") {
+            out.insert(k, CostVal::Heavy { base: h["base"].as_u64().unwrap_or(0), gas_per_unit: h["gas_per_unit"].as_u64().unwrap_or(0) });
+        }
+    }
+    out
+}
+
+#[derive(Clone, Debug)]
+pub struct ContractDef {
+    pub id: ContractId,
+    pub code: Vec<u8>,
+    pub balances: Vec<(AssetId, u64)>,
+    pub slots: Vec<([u8; 32], Vec<u8>)>,
+}
+
+/// Deployed contracts + consensus parameters + chain facts.
+#[derive(Clone, Debug)]
+pub struct World {
+    pub storage: MemoryStorage,
+    pub params: ConsensusParameters,
+    pub schedule: GasSchedule,
+    pub contracts: Vec<ContractDef>,
+    /// `assets[0]` is the base asset
+    pub assets: Vec<AssetId>,
+    pub block_height: u32,
+    pub gas_price: u64,
+}
+impl World {
+    pub fn new(schedule: GasSchedule, block_height: u32, assets: Vec<AssetId>) -> World {
+        let mut params = ConsensusParameters::standard();
+        params.set_gas_costs(schedule.costs());
+        let base = assets.first().copied().unwrap_or_default();
+        params.set_base_asset_id(base);
+        let coinbase = ContractId::from([0xCB; 32]);
+        World {
+            storage: MemoryStorage::new(BlockHeight::from(block_height), coinbase),
+            params,
+            schedule,
+            contracts: vec![],
+            assets: if assets.is_empty() { vec![base] } else { assets },
+            block_height,
+            gas_price: 0,
+        }
+    }
+    pub fn set_schedule(&mut self, schedule: GasSchedule) {
+        self.params.set_gas_costs(schedule.costs());
+        self.schedule = schedule;
+    }
+    /// store code, balances and state slots of a contract under `def.id`
+    pub fn deploy(&mut self, def: ContractDef) {
+        self.storage.storage_contract_insert(&def.id, &def.code).expect("infallible");
+        for (k, v) in &def.slots {
+            self.storage.contract_state_insert(&def.id, &Bytes32::from(*k), v).expect("infallible");
+        }
+        for (a, amt) in &def.balances {
+            self.storage.contract_asset_id_balance_insert(&def.id, a, *amt).expect("infallible");
+        }
+        self.contracts.push(def);
+    }
+    pub fn deploy_code(&mut self, id: ContractId, code: &[u32]) {
+        self.deploy(ContractDef { id, code: words_to_bytes(code), balances: vec![], slots: vec![] });
+    }
+    pub fn interpreter_params(&self) -> InterpreterParams {
+        InterpreterParams::new(self.gas_price, &self.params)
+    }
+    pub fn costs(&self) -> BTreeMap<String, CostVal> {
+        cost_table(self.params.gas_costs())
+    }
+    pub fn tx_offset(&self) -> usize {
+        self.params.tx_params().tx_offset()
+    }
+    /// VM address of the first byte of the script / of the script data, for a script of
+    /// `script_len` bytes
+    pub fn script_addr(&self) -> u64 {
+        (self.tx_offset() + <Script as fuel_tx::field::Script>::script_offset_static()) as u64
+    }
+    pub fn script_data_addr(&self, script_len: usize) -> u64 {
+        self.script_addr() + (script_len.div_ceil(8) * 8) as u64
+    }
+}
+
+pub fn words_to_bytes(ws: &[u32]) -> Vec<u8> {
+    ws.iter().flat_map(|w| w.to_be_bytes()).collect()
+}
+pub fn instrs_to_words(is: &[Instruction]) -> Vec<u32> {
+    is.iter().map(|i| u32::from_be_bytes((*i).into())).collect()
+}
+
+#[derive(Clone, Debug, PartialEq, Eq)]
+pub enum OutSpec {
+    Change(AssetId),
+    Variable,
+    Coin(AssetId, u64),
+}
+
+/// Description of a script transaction; `build` signs and checks it with the crate's own rules.
+#[derive(Clone, Debug)]
+pub struct TxSpec {
+    pub script: Vec<u8>,
+    pub script_data: Vec<u8>,
+    pub gas_limit: u64,
+    pub coins: Vec<(AssetId, u64)>,
+    /// message inputs (amount of base asset, data)
+    pub messages: Vec<(u64, Vec<u8>)>,
+    /// contract inputs (each gets the matching contract output; outputs come first, in order)
+    pub contract_inputs: Vec<ContractId>,
+    pub outputs: Vec<OutSpec>,
+    pub max_fee: u64,
+    pub key_seed: u64,
+}
+impl TxSpec {
+    pub fn new(script: Vec<u8>, script_data: Vec<u8>, gas_limit: u64) -> TxSpec {
+        TxSpec { script, script_data, gas_limit, coins: vec![], messages: vec![], contract_inputs: vec![], outputs: vec![], max_fee: 0, key_seed: 1 }
+    }
+    pub fn build(&self, w: &World) -> Result<Ready<Script>, String> {
+        use rand::{rngs::StdRng, Rng as _, SeedableRng};
+        let mut r = StdRng::seed_from_u64(self.key_seed);
+        let mut b = TransactionBuilder::script(self.script.clone(), self.script_data.clone());
+        b.with_params(w.params.clone());
+        b.script_gas_limit(self.gas_limit).max_fee_limit(self.max_fee);
+        for (i, c) in self.contract_inputs.iter().enumerate() {
+            b.add_input(Input::contract(UtxoId::new(r.r#gen(), i as u16), r.r#gen(), r.r#gen(), TxPointer::default(), *c));
+        }
+        for (i, (asset, amount)) in self.coins.iter().enumerate() {
+            b.add_unsigned_coin_input(fuel_crypto::SecretKey::random(&mut r), UtxoId::new(r.r#gen(), 100 + i as u16), *amount, *asset, TxPointer::default());
+        }
+        for (amount, data) in &self.messages {
+            let sender: Address = r.r#gen();
+            let nonce: Nonce = r.r#gen();
+            b.add_unsigned_message_input(fuel_crypto::SecretKey::random(&mut r), sender, nonce, *amount, data.clone());
+        }
+        if self.coins.is_empty() && self.messages.is_empty() {
+            b.add_unsigned_coin_input(fuel_crypto::SecretKey::random(&mut r), UtxoId::new(r.r#gen(), 99), 1, *w.params.base_asset_id(), TxPointer::default());
+        }
+        for i in 0..self.contract_inputs.len() {
+            b.add_output(Output::contract(i as u16, r.r#gen(), r.r#gen()));
+        }
+        for o in &self.outputs {
+            let to: Address = r.r#gen();
+            match o {
+                OutSpec::Change(a) => b.add_output(Output::change(to, 0, *a)),
+                OutSpec::Variable => b.add_output(Output::variable(Address::zeroed(), 0, AssetId::zeroed())),
+                OutSpec::Coin(a, amt) => b.add_output(Output::coin(to, *amt, *a)),
+            };
+        }
+        use fuel_tx::Finalizable;
+        let tx = b.finalize();
+        let checked = tx.into_checked(BlockHeight::from(w.block_height), &w.params).map_err(|e| format!("check: {e:?}"))?;
+        checked
+            .into_ready(w.gas_price, w.params.gas_costs(), w.params.fee_params(), Some(BlockHeight::from(w.block_height)))
+            .map_err(|e| format!("ready: {e:?}"))
+    }
+    /// index (in the tx outputs) of the first `Variable` output, if any
+    pub fn first_variable_output(&self) -> Option<usize> {
+        self.outputs.iter().position(|o| *o == OutSpec::Variable).map(|i| i + self.contract_inputs.len())
+    }
+}
+
+// =====================================================================================
+// 2. recording storage wrapper
+// =====================================================================================
+#[derive(Clone, Debug, PartialEq, Eq)]
+pub enum StorageOp {
+    /// get / contains_key / size_of_value / read*: result = value bytes (or presence) seen
+    Read,
+    /// replace / write_bytes / replace_bytes / insert
+    Write,
+    /// take / take_bytes / remove
+    Remove,
+    /// contract_state_remove_range(start, n)
+    RemoveRange,
+}
+#[derive(Clone, Debug, PartialEq, Eq)]
+pub struct StorageEvent {
+    pub table: &'static str,
+    pub op: StorageOp,
+    pub method: &'static str,
+    pub key: Vec<u8>,
+    /// value written (Write), previous value (Remove), value read (Read; None = absent)
+    pub value: Option<Vec<u8>>,
+    /// previous value for Write through replace*, range for RemoveRange
+    pub prev: Option<Vec<u8>>,
+    pub extra: u64,
+}
+impl StorageEvent {
+    pub fn to_json(&self) -> Value {
+        json!({"table": self.table, "op": format!("{:?}", self.op), "method": self.method, "key": hex::encode(&self.key),
+               "value": self.value.as_ref().map(hex::encode), "prev": self.prev.as_ref().map(hex::encode), "extra": self.extra})
+    }
+    /// contract id the event belongs to (first 32 key bytes) for the contract-keyed tables
+    pub fn contract(&self) -> Option<ContractId> {
+        match self.table {
+            "ContractsState" | "ContractsAssets" | "ContractsRawCode" if self.key.len() >= 32 => {
+                let mut b = [0u8; 32];
+                b.copy_from_slice(&self.key[..32]);
+                Some(ContractId::from(b))
+            }
+            _ => None,
+        }
+    }
+}
+
+/// Tables the recorder knows how to print.
+pub trait RecTable: Mappable {
+    const NAME: &'static str;
+    fn key_bytes(k: &Self::Key) -> Vec<u8>;
+    fn val_bytes(v: &Self::Value) -> Vec<u8>;
+    fn owned_bytes(v: &Self::OwnedValue) -> Vec<u8>;
+}
+impl RecTable for ContractsState {
+    const NAME: &'static str = "ContractsState";
+    fn key_bytes(k: &Self::Key) -> Vec<u8> { k.as_ref().to_vec() }
+    fn val_bytes(v: &Self::Value) -> Vec<u8> { v.to_vec() }
+    fn owned_bytes(v: &Self::OwnedValue) -> Vec<u8> { v.as_ref().to_vec() }
+}
+impl RecTable for ContractsAssets {
+    const NAME: &'static str = "ContractsAssets";
+    fn key_bytes(k: &Self::Key) -> Vec<u8> { k.as_ref().to_vec() }
+    fn val_bytes(v: &Self::Value) -> Vec<u8> { v.to_be_bytes().to_vec() }
+    fn owned_bytes(v: &Self::OwnedValue) -> Vec<u8> { v.to_be_bytes().to_vec() }
+}
+impl RecTable for ContractsRawCode {
+    const NAME: &'static str = "ContractsRawCode";
+    fn key_bytes(k: &Self::Key) -> Vec<u8> { k.as_ref().to_vec() }
+    fn val_bytes(v: &Self::Value) -> Vec<u8> { v.to_vec() }
+    fn owned_bytes(v: &Self::OwnedValue) -> Vec<u8> { v.as_ref().to_vec() }
+}
+impl RecTable for BlobData {
+    const NAME: &'static str = "BlobData";
+    fn key_bytes(k: &Self::Key) -> Vec<u8> { k.as_ref().to_vec() }
+    fn val_bytes(v: &Self::Value) -> Vec<u8> { v.to_vec() }
+    fn owned_bytes(v: &Self::OwnedValue) -> Vec<u8> { v.0.as_ref().to_vec() }
+}
+impl RecTable for UploadedBytecodes {
+    const NAME: &'static str = "UploadedBytecodes";
+    fn key_bytes(k: &Self::Key) -> Vec<u8> { k.as_ref().to_vec() }
+    fn val_bytes(v: &Self::Value) -> Vec<u8> { Self::owned_bytes(v) }
+    fn owned_bytes(v: &Self::OwnedValue) -> Vec<u8> {
+        match v {
+            UploadedBytecode::Uncompleted { bytecode, uploaded_subsections_number } => {
+                let mut b = vec![0u8];
+                b.extend(uploaded_subsections_number.to_be_bytes());
+                b.extend(bytecode);
+                b
+            }
+            UploadedBytecode::Completed(c) => {
+                let mut b = vec![1u8];
+                b.extend(c);
+                b
+            }
+        }
+    }
+}
+
+/// Generic recording wrapper: forwards everything to `inner` and appends a `StorageEvent`
+/// per call.  `mark()`/`since(mark)` slice the log per instruction.
+#[derive(Debug, Clone)]
+pub struct RecStorage<S> {
+    pub inner: S,
+    pub log: RefCell<Vec<StorageEvent>>,
+    pub enabled: bool,
+}
+impl<S> RecStorage<S> {
+    pub fn new(inner: S) -> Self {
+        RecStorage { inner, log: RefCell::new(vec![]), enabled: true }
+    }
+    pub fn mark(&self) -> usize {
+        self.log.borrow().len()
+    }
+    pub fn since(&self, mark: usize) -> Vec<StorageEvent> {
+        self.log.borrow()[mark..].to_vec()
+    }
+    fn push(&self, table: &'static str, op: StorageOp, method: &'static str, key: Vec<u8>, value: Option<Vec<u8>>, prev: Option<Vec<u8>>, extra: u64) {
+        if self.enabled {
+            self.log.borrow_mut().push(StorageEvent { table, op, method, key, value, prev, extra });
+        }
+    }
+}
+impl<T: RecTable, S: StorageInspect<T>> StorageInspect<T> for RecStorage<S> {
+    type Error = <S as StorageInspect<T>>::Error;
+    fn get(&self, key: &T::Key) -> Result<Option<Cow<'_, T::OwnedValue>>, Self::Error> {
+        let r = self.inner.get(key)?;
+        self.push(T::NAME, StorageOp::Read, "get", T::key_bytes(key), r.as_ref().map(|v| T::owned_bytes(v)), None, 0);
+        Ok(r)
+    }
+    fn contains_key(&self, key: &T::Key) -> Result<bool, Self::Error> {
+        let r = self.inner.contains_key(key)?;
+        self.push(T::NAME, StorageOp::Read, "contains_key", T::key_bytes(key), if r { Some(vec![]) } else { None }, None, 0);
+        Ok(r)
+    }
+}
+impl<T: RecTable, S: StorageSize<T>> StorageSize<T> for RecStorage<S> {
+    fn size_of_value(&self, key: &T::Key) -> Result<Option<usize>, Self::Error> {
+        let r = self.inner.size_of_value(key)?;
+        self.push(T::NAME, StorageOp::Read, "size_of_value", T::key_bytes(key), r.map(|_| vec![]), None, r.unwrap_or(0) as u64);
+        Ok(r)
+    }
+}
+impl<T: RecTable, S: StorageRead<T>> StorageRead<T> for RecStorage<S> {
+    fn read_exact(&self, key: &T::Key, offset: usize, buf: &mut [u8]) -> Result<Result<usize, StorageReadError>, Self::Error> {
+        let r = self.inner.read_exact(key, offset, buf)?;
+        self.push(T::NAME, StorageOp::Read, "read_exact", T::key_bytes(key), r.ok().map(|_| buf.to_vec()), None, offset as u64);
+        Ok(r)
+    }
+    fn read_zerofill(&self, key: &T::Key, offset: usize, buf: &mut [u8]) -> Result<Result<usize, StorageReadError>, Self::Error> {
+        let r = self.inner.read_zerofill(key, offset, buf)?;
+        self.push(T::NAME, StorageOp::Read, "read_zerofill", T::key_bytes(key), r.ok().map(|_| buf.to_vec()), None, offset as u64);
+        Ok(r)
+    }
+    fn read_alloc(&self, key: &T::Key) -> Result<Option<Vec<u8>>, Self::Error> {
+        let r = self.inner.read_alloc(key)?;
+        self.push(T::NAME, StorageOp::Read, "read_alloc", T::key_bytes(key), r.clone(), None, 0);
+        Ok(r)
+    }
+}
+impl<T: RecTable, S: StorageMutate<T>> StorageMutate<T> for RecStorage<S> {
+    fn replace(&mut self, key: &T::Key, value: &T::Value) -> Result<Option<T::OwnedValue>, Self::Error> {
+        let r = self.inner.replace(key, value)?;
+        self.push(T::NAME, StorageOp::Write, "replace", T::key_bytes(key), Some(T::val_bytes(value)), r.as_ref().map(T::owned_bytes), 0);
+        Ok(r)
+    }
+    fn take(&mut self, key: &T::Key) -> Result<Option<T::OwnedValue>, Self::Error> {
+        let r = self.inner.take(key)?;
+        self.push(T::NAME, StorageOp::Remove, "take", T::key_bytes(key), r.as_ref().map(T::owned_bytes), None, 0);
+        Ok(r)
+    }
+}
+impl<T: RecTable, S: StorageWrite<T>> StorageWrite<T> for RecStorage<S> {
+    fn write_bytes(&mut self, key: &T::Key, buf: &[u8]) -> Result<(), Self::Error> {
+        self.inner.write_bytes(key, buf)?;
+        self.push(T::NAME, StorageOp::Write, "write_bytes", T::key_bytes(key), Some(buf.to_vec()), None, 0);
+        Ok(())
+    }
+    fn replace_bytes(&mut self, key: &T::Key, buf: &[u8]) -> Result<Option<Vec<u8>>, Self::Error> {
+        let r = self.inner.replace_bytes(key, buf)?;
+        self.push(T::NAME, StorageOp::Write, "replace_bytes", T::key_bytes(key), Some(buf.to_vec()), r.clone(), 0);
+        Ok(r)
+    }
+    fn take_bytes(&mut self, key: &T::Key) -> Result<Option<Vec<u8>>, Self::Error> {
+        let r = self.inner.take_bytes(key)?;
+        self.push(T::NAME, StorageOp::Remove, "take_bytes", T::key_bytes(key), r.clone(), None, 0);
+        Ok(r)
+    }
+}
+impl<S: ContractsAssetsStorage> ContractsAssetsStorage for RecStorage<S> {}
+impl<S: InterpreterStorage> InterpreterStorage for RecStorage<S> {
+    type DataError = S::DataError;
+    fn block_height(&self) -> Result<BlockHeight, Self::DataError> { self.inner.block_height() }
+    fn consensus_parameters_version(&self) -> Result<u32, Self::DataError> { self.inner.consensus_parameters_version() }
+    fn state_transition_version(&self) -> Result<u32, Self::DataError> { self.inner.state_transition_version() }
+    fn timestamp(&self, height: BlockHeight) -> Result<Word, Self::DataError> { self.inner.timestamp(height) }
+    fn block_hash(&self, block_height: BlockHeight) -> Result<Bytes32, Self::DataError> { self.inner.block_hash(block_height) }
+    fn coinbase(&self) -> Result<ContractId, Self::DataError> { self.inner.coinbase() }
+    fn set_consensus_parameters(&mut self, version: u32, cp: &ConsensusParameters) -> Result<Option<ConsensusParameters>, Self::DataError> {
+        self.inner.set_consensus_parameters(version, cp)
+    }
+    fn set_state_transition_bytecode(&mut self, version: u32, hash: &Bytes32) -> Result<Option<Bytes32>, Self::DataError> {
+        self.inner.set_state_transition_bytecode(version, hash)
+    }
+    fn contract_state_remove_range(&mut self, contract: &ContractId, start_key: &Bytes32, range: usize) -> Result<(), Self::DataError> {
+        let mut k = contract.as_ref().to_vec();
+        k.extend_from_slice(start_key.as_ref());
+        self.push("ContractsState", StorageOp::RemoveRange, "contract_state_remove_range", k, None, None, range as u64);
+        // the inner implementation may call its own (unrecorded) primitives
+        self.inner.contract_state_remove_range(contract, start_key, range)
+    }
+}
+
+// =====================================================================================
+// 3. step-wise execution
+// =====================================================================================
+pub type Vm = Interpreter<MemoryInstance, RecStorage<MemoryStorage>, Script>;
+
+#[derive(Clone, Debug, PartialEq, Eq)]
+pub enum Outcome {
+    Proceed,
+    Return(u64),
+    ReturnData,
+    Revert(u64),
+    /// the instruction panicked (reason byte, name)
+    Panic(PanicReason),
+    /// non-panic interpreter error (Bug, storage error, ...): text
+    Error(String),
+}
+impl Outcome {
+    pub fn name(&self) -> String {
+        match self {
+            Outcome::Proceed => "Proceed".into(),
+            Outcome::Return(_) => "Return".into(),
+            Outcome::ReturnData => "ReturnData".into(),
+            Outcome::Revert(_) => "Revert".into(),
+            Outcome::Panic(r) => format!("Panic:{r:?}"),
+            Outcome::Error(_) => "Error".into(),
+        }
+    }
+    pub fn panic_reason(&self) -> Option<PanicReason> {
+        if let Outcome::Panic(r) = self { Some(*r) } else { None }
+    }
+}
+
+#[derive(Clone, Debug, PartialEq, Eq)]
+pub enum StepKind {
+    /// one instruction was fetched and executed
+    Exec,
+    /// the fetch at `pc` failed (unreadable pc, or pc outside [$is, $ssp)); nothing executed;
+    /// `outcome` is the panic; registers before = after
+    FetchFault,
+}
+
+/// who executes: the script, or a contract (id read from the call frame at $fp)
+#[derive(Clone, Debug, PartialEq, Eq)]
+pub enum Ctx {
+    Script,
+    Contract(ContractId),
+}
+
+#[derive(Clone, Debug, PartialEq, Eq)]
+pub struct FrameInfo {
+    pub fp: u64,
+    pub to: ContractId,
+    pub asset_id: AssetId,
+    /// registers saved in the frame (the caller's), incl. saved $cgas/$ggas
+    pub saved_cgas: u64,
+    pub saved_ggas: u64,
+    pub saved_fp: u64,
+    pub saved_pc: u64,
+    pub code_size_padded: u64,
+    pub a: u64,
+    pub b: u64,
+}
+
+#[derive(Clone, Debug, PartialEq, Eq)]
+pub struct MemDiff {
+    pub addr: u64,
+    pub old: Vec<u8>,
+    pub new: Vec<u8>,
+}
+
+#[derive(Clone, Debug)]
+pub struct Step {
+    pub index: usize,
+    pub kind: StepKind,
+    pub pc: u64,
+    /// raw instruction word at pc (0 when unreadable)
+    pub raw: u32,
+    /// decoded instruction (None: invalid opcode / reserved bits set)
+    pub instr: Option<Instruction>,
+    /// opcode byte and mnemonic ("?" if undefined)
+    pub opcode: u8,
+    pub mnemonic: String,
+    /// register-id fields in order, immediate (0 if none)
+    pub reg_args: Vec<u8>,
+    pub imm: u32,
+    pub regs_before: [u64; VM_REGISTER_COUNT],
+    pub regs_after: [u64; VM_REGISTER_COUNT],
+    /// changed byte ranges of accessible memory ([0, stack high-water) and [hp_min, MEM))
+    pub mem_diff: Vec<MemDiff>,
+    pub receipts: Vec<Receipt>,
+    pub ctx_before: Ctx,
+    pub ctx_after: Ctx,
+    /// call frames innermost-last, read from VM memory through the $fp chain
+    pub frames_before: Vec<FrameInfo>,
+    pub frames_after: Vec<FrameInfo>,
+    pub outcome: Outcome,
+    pub storage: Vec<StorageEvent>,
+    /// length of the VM's stack buffer (high-water mark of $sp; `MemoryInstance::verify` uses it)
+    pub stack_len_before: u64,
+    pub stack_len_after: u64,
+}
+impl Step {
+    pub fn reg(&self, r: u8) -> u64 { self.regs_before[r as usize & 63] }
+    pub fn reg_after(&self, r: u8) -> u64 { self.regs_after[r as usize & 63] }
+    pub fn pc_after(&self) -> u64 { self.regs_after[RegId::PC.to_u8() as usize] }
+    pub fn cgas(&self) -> (u64, u64) { (self.regs_before[10], self.regs_after[10]) }
+    pub fn ggas(&self) -> (u64, u64) { (self.regs_before[9], self.regs_after[9]) }
+    pub fn fp(&self) -> (u64, u64) { (self.regs_before[6], self.regs_after[6]) }
+    pub fn depth(&self) -> (usize, usize) { (self.frames_before.len(), self.frames_after.len()) }
+    /// 6-bit register fields a,b,c,d of the raw word (regardless of the opcode's shape)
+    pub fn fields(&self) -> [u8; 4] {
+        let w = self.raw;
+        [((w >> 18) & 63) as u8, ((w >> 12) & 63) as u8, ((w >> 6) & 63) as u8, (w & 63) as u8]
+    }
+    /// values (before the step) of the registers named by the four raw fields
+    pub fn field_values(&self) -> [u64; 4] {
+        let f = self.fields();
+        [self.reg(f[0]), self.reg(f[1]), self.reg(f[2]), self.reg(f[3])]
+    }
+    pub fn gas_charged(&self) -> u64 { self.regs_before[9].saturating_sub(self.regs_after[9]) }
+}
+
+#[derive(Clone, Debug)]
+pub struct StorageDump {
+    /// (contract, key) -> value
+    pub state: BTreeMap<(ContractId, Bytes32), Vec<u8>>,
+    /// (contract, asset) -> balance, for every pair probed (known contracts x known assets + touched)
+    pub balances: BTreeMap<(ContractId, AssetId), u64>,
+}
+
+#[derive(Clone, Debug, PartialEq, Eq)]
+pub enum FinalState {
+    Return(u64),
+    ReturnData(Bytes32),
+    Revert(u64),
+    /// transact/resume returned Err (not a VM panic): text
+    Error(String),
+    /// step budget exhausted (trace truncated)
+    StepLimit,
+}
+
+#[derive(Clone, Debug)]
+pub struct Trace {
+    pub steps: Vec<Step>,
+    pub final_state: FinalState,
+    pub receipts: Vec<Receipt>,
+    pub outputs: Vec<Output>,
+    pub regs_initial: [u64; VM_REGISTER_COUNT],
+    pub regs_final: [u64; VM_REGISTER_COUNT],
+    pub gas_limit: u64,
+    /// from the ScriptResult receipt
+    pub gas_used: Option<u64>,
+    pub script_result: Option<u64>,
+    pub storage_before: StorageDump,
+    pub storage_after: StorageDump,
+    pub storage_log: Vec<StorageEvent>,
+    pub tx_id: Bytes32,
+}
+
+#[derive(Clone, Debug)]
+pub struct PlainRun {
+    pub final_state: FinalState,
+    pub receipts: Vec<Receipt>,
+    pub outputs: Vec<Output>,
+    pub regs_final: [u64; VM_REGISTER_COUNT],
+    pub storage_after: StorageDump,
+    pub mem_stack: Vec<u8>,
+}
+
+fn regs_of<S>(vm: &Interpreter<MemoryInstance, S, Script>) -> [u64; VM_REGISTER_COUNT] {
+    let mut r = [0u64; VM_REGISTER_COUNT];
+    r.copy_from_slice(vm.registers());
+    r
+}
+
+fn read_mem(mem: &MemoryInstance, addr: u64, len: usize) -> Option<Vec<u8>> {
+    mem.read(addr, len).ok().map(|s| s.to_vec())
+}
+
+/// Call frames from VM memory: follow $fp -> saved $fp until 0 (outermost first).
+pub fn frames_from_memory(mem: &MemoryInstance, fp: u64) -> Vec<FrameInfo> {
+    let mut out = vec![];
+    let mut fp = fp;
+    let ro = CallFrame::registers_offset() as u64;
+    let mut guard = 0;
+    while fp != 0 && guard < 4096 {
+        guard += 1;
+        let Some(hdr) = read_mem(mem, fp, CallFrame::serialized_size()) else { break };
+        let w = |off: usize| u64::from_be_bytes(hdr[off..off + 8].try_into().unwrap());
+        let reg = |i: usize| w(ro as usize + 8 * i);
+        let mut to = [0u8; 32];
+        to.copy_from_slice(&hdr[0..32]);
+        let mut asset = [0u8; 32];
+        asset.copy_from_slice(&hdr[32..64]);
+        let saved_fp = reg(6);
+        out.push(FrameInfo {
+            fp,
+            to: to.into(),
+            asset_id: asset.into(),
+            saved_cgas: reg(10),
+            saved_ggas: reg(9),
+            saved_fp,
+            saved_pc: reg(3),
+            code_size_padded: w(CallFrame::code_size_offset()),
+            a: w(CallFrame::a_offset()),
+            b: w(CallFrame::b_offset()),
+        });
+        if saved_fp >= fp {
+            break;
+        }
+        fp = saved_fp;
+    }
+    out.reverse();
+    out
+}
+
+/// Shadow copy of accessible memory for diffing.
+struct Shadow {
+    stack: Vec<u8>,
+    /// copy of [heap_lo, MEM_SIZE)
+    heap: Vec<u8>,
+}
+impl Shadow {
+    fn new() -> Self { Shadow { stack: vec![], heap: vec![] } }
+    /// compare with the VM memory, return changed ranges, update the shadow
+    fn diff(&mut self, mem: &MemoryInstance, hp: u64) -> Vec<MemDiff> {
+        let mut out = vec![];
+        let st = mem.stack_raw();
+        // stack: compare common prefix chunk-wise; new bytes (growth) count as changes from 0 only
+        // if non-zero (fresh memory reads as zero)
+        diff_region(&mut out, 0, &self.stack, st);
+        if self.stack.len() != st.len() || !out.is_empty() {
+            // cheap enough: update only what changed
+            if st.len() < self.stack.len() { self.stack.truncate(st.len()); }
+            let old_len = self.stack.len();
+            for d in &out {
+                let a = d.addr as usize;
+                let e = (a + d.new.len()).min(old_len);
+                if a < e { self.stack[a..e].copy_from_slice(&d.new[..e - a]); }
+            }
+            if st.len() > old_len { self.stack.extend_from_slice(&st[old_len..]); }
+        }
+        // heap: accessible part is [hp, MEM_SIZE)
+        let hp = (hp as usize).min(MEM_SIZE);
+        let hraw = mem.heap_raw();
+        let acc_len = MEM_SIZE - hp;
+        let cur: &[u8] = if hraw.len() >= acc_len { &hraw[hraw.len() - acc_len..] } else { hraw };
+        let base = (MEM_SIZE - cur.len()) as u64;
+        let mut hd = vec![];
+        // align the two tails: shadow covers [MEM-len_s, MEM), cur covers [MEM-len_c, MEM)
+        let ls = self.heap.len();
+        let lc = cur.len();
+        if lc >= ls {
+            // grown (or same): new low part compared against zeros
+            let grown = lc - ls;
+            diff_region_zero(&mut hd, base, &cur[..grown]);
+            diff_region(&mut hd, base + grown as u64, &self.heap, &cur[grown..]);
+        } else {
+            diff_region(&mut hd, base, &self.heap[ls - lc..], cur);
+        }
+        if lc != ls || !hd.is_empty() {
+            self.heap = cur.to_vec();
+        }
+        out.extend(hd);
+        out
+    }
+}
+fn diff_region_zero(out: &mut Vec<MemDiff>, base: u64, new: &[u8]) {
+    const CH: usize = 4096;
+    static Z: [u8; CH] = [0u8; CH];
+    let mut i = 0;
+    while i < new.len() {
+        let e = (i + CH).min(new.len());
+        if new[i..e] != Z[..e - i] {
+            fine_diff(out, base + i as u64, &Z[..e - i], &new[i..e]);
+        }
+        i = e;
+    }
+}
+fn diff_region(out: &mut Vec<MemDiff>, base: u64, old: &[u8], new: &[u8]) {
+    const CH: usize = 4096;
+    let n = old.len().min(new.len());
+    let mut i = 0;
+    while i < n {
+        let e = (i + CH).min(n);
+        if old[i..e] != new[i..e] {
+            fine_diff(out, base + i as u64, &old[i..e], &new[i..e]);
+        }
+        i = e;
+    }
+    if new.len() > n {
+        diff_region_zero(out, base + n as u64, &new[n..]);
+    }
+}
+/// maximal runs of differing bytes (runs separated by < 8 equal bytes are merged)
+fn fine_diff(out: &mut Vec<MemDiff>, base: u64, old: &[u8], new: &[u8]) {
+    let n = old.len();
+    let mut i = 0;
+    while i < n {
+        if old[i] == new[i] { i += 1; continue; }
+        let start = i;
+        let mut last = i;
+        while i < n && i - last < 8 {
+            if old[i] != new[i] { last = i; }
+            i += 1;
+        }
+        let end = last + 1;
+        // merge with previous diff if adjacent (chunk boundary)
+        if let Some(p) = out.last_mut() {
+            if p.addr + p.new.len() as u64 == base + start as u64 {
+                p.old.extend_from_slice(&old[start..end]);
+                p.new.extend_from_slice(&new[start..end]);
+                i = end;
+                continue;
+            }
+        }
+        out.push(MemDiff { addr: base + start as u64, old: old[start..end].to_vec(), new: new[start..end].to_vec() });
+        i = end;
+    }
+}
+
+fn ctx_of(mem: &MemoryInstance, fp: u64) -> Ctx {
+    if fp == 0 { Ctx::Script } else {
+        match read_mem(mem, fp, 32) {
+            Some(b) => { let mut a = [0u8; 32]; a.copy_from_slice(&b); Ctx::Contract(a.into()) }
+            None => Ctx::Contract(ContractId::zeroed()),
+        }
+    }
+}
+
+pub fn dump_storage(st: &MemoryStorage, w: &World, extra: &[StorageEvent]) -> StorageDump {
+    let mut state = BTreeMap::new();
+    for (k, v) in st.all_contract_state() {
+        state.insert((*k.contract_id(), *k.state_key()), v.as_ref().to_vec());
+    }
+    let mut pairs: BTreeSet<(ContractId, AssetId)> = BTreeSet::new();
+    for c in &w.contracts {
+        for a in &w.assets { pairs.insert((c.id, *a)); }
+        for (a, _) in &c.balances { pairs.insert((c.id, *a)); }
+    }
+    for e in extra {
+        if e.table == "ContractsAssets" && e.key.len() == 64 {
+            let mut c = [0u8; 32]; c.copy_from_slice(&e.key[..32]);
+            let mut a = [0u8; 32]; a.copy_from_slice(&e.key[32..]);
+            pairs.insert((c.into(), a.into()));
+        }
+    }
+    let mut balances = BTreeMap::new();
+    for (c, a) in pairs {
+        if let Ok(Some(b)) = st.contract_asset_id_balance(&c, &a) { balances.insert((c, a), b); }
+    }
+    StorageDump { state, balances }
+}
+
+fn decode_fields(raw: u32) -> (Option<Instruction>, u8, String, Vec<u8>, u32) {
+    let opb = (raw >> 24) as u8;
+    match Instruction::try_from(raw.to_be_bytes()) {
+        Ok(i) => {
+            let regs: Vec<u8> = i.reg_ids().iter().flatten().map(|r| r.to_u8()).collect();
+            let bits = 24 - 6 * regs.len() as u32;
+            let imm = if bits == 0 { 0 } else { raw & ((1u32 << bits) - 1) };
+            (Some(i), opb, format!("{:?}", i.opcode()), regs, imm)
+        }
+        Err(_) => {
+            let m = fuel_asm::Opcode::try_from(opb).map(|o| format!("{o:?}")).unwrap_or_else(|_| "?".into());
+            (None, opb, m, vec![], raw & 0xff_ffff)
+        }
+    }
+}
+
+fn final_of(s: &ProgramState) -> FinalState {
+    match s {
+        ProgramState::Return(w) => FinalState::Return(*w),
+        ProgramState::ReturnData(d) => FinalState::ReturnData(*d),
+        ProgramState::Revert(w) => FinalState::Revert(*w),
+        _ => FinalState::Error("debug state".into()),
+    }
+}
+
+/// Options of a traced run.
+#[derive(Clone, Debug)]
+pub struct TraceOpts {
+    pub max_steps: usize,
+    /// record memory diffs (cost: a memcmp of accessible memory per step)
+    pub mem_diff: bool,
+    /// record storage events
+    pub storage: bool,
+    /// read frames from memory at every step (cheap)
+    pub frames: bool,
+}
+impl Default for TraceOpts {
+    fn default() -> Self { TraceOpts { max_steps: 20_000, mem_diff: true, storage: true, frames: true } }
+}
+
+/// Run `tx` on a fresh interpreter over (a clone of) the world's storage, one instruction at a
+/// time (debugger single-stepping: `transact` stops before the first instruction, every
+/// `resume` executes exactly one).  The world is not modified.
+pub fn trace(w: &World, tx: &TxSpec, opts: &TraceOpts) -> Result<Trace, String> {
+    let ready = tx.build(w)?;
+    trace_ready(w, ready, tx.gas_limit, opts)
+}
+
+pub fn trace_ready(w: &World, ready: Ready<Script>, gas_limit: u64, opts: &TraceOpts) -> Result<Trace, String> {
+    let mut rec = RecStorage::new(w.storage.clone());
+    rec.enabled = opts.storage;
+    let storage_before = dump_storage(&w.storage, w, &[]);
+    let mut vm: Vm = Interpreter::with_storage(MemoryInstance::new(), rec, w.interpreter_params());
+    vm.set_single_stepping(true);
+    let mut shadow = Shadow::new();
+    let mut steps: Vec<Step> = vec![];
+    let first = vm.transact(ready).map(|t| *t.state()).map_err(|e| format!("{e:?}"));
+    let regs_initial = regs_of(&vm);
+    if opts.mem_diff {
+        let hp = vm.registers()[RegId::HP.to_u8() as usize];
+        let _ = shadow.diff(vm.memory(), hp);
+    }
+    let mut state: Result<ProgramState, String> = first;
+    let mut receipts_seen = vm.receipts().len();
+    // receipts possibly produced before the first instruction belong to no step
+    if !matches!(state, Ok(ProgramState::RunProgram(_))) { receipts_seen = 0; }
+    let mut truncated = false;
+    while let Ok(ProgramState::RunProgram(_)) = state {
+        if steps.len() >= opts.max_steps { truncated = true; break; }
+        let regs_before = regs_of(&vm);
+        let pc = regs_before[3];
+        let fp = regs_before[6];
+        let raw = read_mem(vm.memory(), pc, 4).map(|b| u32::from_be_bytes(b.try_into().unwrap())).unwrap_or(0);
+        let frames_before = if opts.frames { frames_from_memory(vm.memory(), fp) } else { vec![] };
+        let ctx_before = ctx_of(vm.memory(), fp);
+        let mark = vm.as_ref().mark();
+        let stack_len_before = vm.memory().stack_raw().len() as u64;
+        let res = vm.resume().map_err(|e| format!("{e:?}"));
+        let regs_after = regs_of(&vm);
+        let new_receipts: Vec<Receipt> = vm.receipts()[receipts_seen.min(vm.receipts().len())..].to_vec();
+        receipts_seen = vm.receipts().len();
+        let storage = if opts.storage { vm.as_ref().since(mark) } else { vec![] };
+        let mem_diff = if opts.mem_diff { shadow.diff(vm.memory(), regs_after[7]) } else { vec![] };
+        let fp_after = regs_after[6];
+        let stack_len_after = vm.memory().stack_raw().len() as u64;
+        let frames_after = if opts.frames { frames_from_memory(vm.memory(), fp_after) } else { vec![] };
+        let ctx_after = ctx_of(vm.memory(), fp_after);
+        let (instr, opcode, mnemonic, reg_args, imm) = decode_fields(raw);
+        // classify
+        let panic = new_receipts.iter().find_map(|r| match r {
+            Receipt::Panic { reason, pc, .. } => Some((*reason.reason(), *reason.instruction(), *pc)),
+            _ => None,
+        });
+        let mut outcome = Outcome::Proceed;
+        let mut fetch_fault: Option<(PanicReason, u32, u64)> = None;
+        for r in &new_receipts {
+            match r {
+                Receipt::Return { val, .. } => outcome = Outcome::Return(*val),
+                Receipt::ReturnData { .. } => outcome = Outcome::ReturnData,
+                Receipt::Revert { ra, .. } => outcome = Outcome::Revert(*ra),
+                _ => {}
+            }
+        }
+        if let Some((reason, pinstr, ppc)) = panic {
+            // the executed instruction panicked iff the panic receipt names it (same pc, same
+            // word); otherwise the instruction completed and the *next fetch* faulted
+            if ppc == pc && pinstr == raw {
+                outcome = Outcome::Panic(reason);
+            } else {
+                fetch_fault = Some((reason, pinstr, ppc));
+            }
+        }
+        if let Err(e) = &res { if panic.is_none() { outcome = Outcome::Error(e.clone()); } }
+        let (own_receipts, fault_receipts): (Vec<Receipt>, Vec<Receipt>) = if fetch_fault.is_some() {
+            let cut = new_receipts.iter().position(|r| matches!(r, Receipt::Panic { .. })).unwrap_or(new_receipts.len());
+            (new_receipts[..cut].to_vec(), new_receipts[cut..].to_vec())
+        } else { (new_receipts, vec![]) };
+        let idx = steps.len();
+        steps.push(Step {
+            index: idx, kind: StepKind::Exec, pc, raw, instr, opcode, mnemonic, reg_args, imm,
+            regs_before, regs_after, mem_diff, receipts: own_receipts,
+            ctx_before, ctx_after: ctx_after.clone(), frames_before, frames_after: frames_after.clone(), outcome, storage,
+            stack_len_before, stack_len_after,
+        });
+        if let Some((reason, pinstr, ppc)) = fetch_fault {
+            let (instr, opcode, mnemonic, reg_args, imm) = decode_fields(pinstr);
+            steps.push(Step {
+                index: idx + 1, kind: StepKind::FetchFault, pc: ppc, raw: pinstr, instr, opcode, mnemonic, reg_args, imm,
+                regs_before: regs_after, regs_after, mem_diff: vec![], receipts: fault_receipts,
+                ctx_before: ctx_after.clone(), ctx_after, frames_before: frames_after.clone(), frames_after,
+                outcome: Outcome::Panic(reason), storage: vec![], stack_len_before: stack_len_after, stack_len_after,
+            });
+        }
+        state = res;
+    }
+    let final_state = if truncated { FinalState::StepLimit } else {
+        match &state { Ok(s) => final_of(s), Err(e) => FinalState::Error(e.clone()) }
+    };
+    let receipts = vm.receipts().to_vec();
+    let (mut gas_used, mut script_result) = (None, None);
+    for r in &receipts {
+        if let Receipt::ScriptResult { result, gas_used: g } = r { gas_used = Some(*g); script_result = Some(u64::from(*result)); }
+    }
+    let outputs = { use fuel_tx::field::Outputs; vm.transaction().outputs().to_vec() };
+    let tx_id = read_mem(vm.memory(), 0, 32).map(|b| { let mut a = [0u8; 32]; a.copy_from_slice(&b); Bytes32::from(a) }).unwrap_or_default();
+    let regs_final = regs_of(&vm);
+    let storage_log = vm.as_ref().since(0);
+    let storage_after = dump_storage(&vm.as_ref().inner, w, &storage_log);
+    Ok(Trace { steps, final_state, receipts, outputs, regs_initial, regs_final, gas_limit, gas_used, script_result,
+               storage_before, storage_after, storage_log, tx_id })
+}
+
+/// The same transaction through a plain `transact` (no debugger, plain `MemoryStorage`).
+pub fn run_plain(w: &World, tx: &TxSpec) -> Result<PlainRun, String> {
+    let ready = tx.build(w)?;
+    let mut vm: Interpreter<MemoryInstance, MemoryStorage, Script> =
+        Interpreter::with_storage(MemoryInstance::new(), w.storage.clone(), w.interpreter_params());
+    let st = vm.transact(ready).map(|t| *t.state()).map_err(|e| format!("{e:?}"));
+    let final_state = match &st { Ok(s) => final_of(s), Err(e) => FinalState::Error(e.clone()) };
+    let outputs = { use fuel_tx::field::Outputs; vm.transaction().outputs().to_vec() };
+    let storage_after = dump_storage(vm.as_ref(), w, &[]);
+    Ok(PlainRun { final_state, receipts: vm.receipts().to_vec(), outputs, regs_final: regs_of(&vm), storage_after, mem_stack: vm.memory().stack_raw().to_vec() })
+}
+
+impl Trace {
+    /// differences between the step-wise run and a plain run (empty = identical observables)
+    pub fn compare_plain(&self, p: &PlainRun) -> Vec<String> {
+        let mut d = vec![];
+        if self.final_state != p.final_state { d.push(format!("final state {:?} vs {:?}", self.final_state, p.final_state)); }
+        if self.receipts != p.receipts { d.push(format!("receipts differ ({} vs {})", self.receipts.len(), p.receipts.len())); }
+        if self.outputs != p.outputs { d.push("outputs differ".into()); }
+        if self.regs_final != p.regs_final { d.push("final registers differ".into()); }
+        if self.storage_after.state != p.storage_after.state { d.push("contract state differs".into()); }
+        for (k, v) in &p.storage_after.balances {
+            if self.storage_after.balances.get(k) != Some(v) { d.push("contract balances differ".into()); break; }
+        }
+        d
+    }
+    pub fn panic_reason(&self) -> Option<PanicReason> {
+        self.receipts.iter().find_map(|r| if let Receipt::Panic { reason, .. } = r { Some(*reason.reason()) } else { None })
+    }
+    pub fn final_ggas(&self) -> u64 { self.regs_final[9] }
+}
+
+// =====================================================================================
+// 4. label assembler
+// =====================================================================================
+/// One assembler item.  Every item has a fixed size so labels resolve in two passes.
+/// Absolute jumps count words from `$is` (= start of the code unit being assembled).
+#[derive(Clone, Debug)]
+pub enum Asm {
+    I(Instruction),
+    Raw(u32),
+    Label(u32),
+    /// `ji idx(label)`
+    Ji(u32),
+    /// `jnei a b idx(label)`
+    Jnei(u8, u8, u32),
+    /// `jnzi a idx(label)`
+    Jnzi(u8, u32),
+    /// `movi tmp idx(label); jmp tmp`
+    Jmp(u8, u32),
+    /// `movi tmp idx(label); jne a b tmp`
+    Jne(u8, u8, u8, u32),
+    /// `jmpf $zero k` / `jnzf a $zero k` / `jnef a b $zero k` (forward to label)
+    Jmpf(u32),
+    Jnzf(u8, u32),
+    Jnef(u8, u8, u32),
+    /// backward to label
+    Jmpb(u32),
+    Jnzb(u8, u32),
+    Jneb(u8, u8, u32),
+    /// `movi tmp k; jmpf tmp 0` / `movi tmp k; jmpb tmp 0` (distance in the dynamic register)
+    JmpfDyn(u8, u32),
+    JmpbDyn(u8, u32),
+    /// `movi tmp k; jnzf a tmp 0`
+    JnzfDyn(u8, u8, u32),
+    /// `jal link $is idx(label)`
+    Jal(u8, u32),
+    /// `movi dst 4*idx(label); add dst dst $is` : absolute address of the label
+    AddrOf(u8, u32),
+}
+impl Asm {
+    pub fn words(&self) -> usize {
+        match self {
+            Asm::Label(_) => 0,
+            Asm::Jmp(..) | Asm::Jne(..) | Asm::JmpfDyn(..) | Asm::JmpbDyn(..) | Asm::JnzfDyn(..) | Asm::AddrOf(..) => 2,
+            _ => 1,
+        }
+    }
+}
+pub fn asm_words(items: &[Asm]) -> usize {
+    items.iter().map(|a| a.words()).sum()
+}
+fn w(i: Instruction) -> u32 {
+    u32::from_be_bytes(i.into())
+}
+/// Resolve labels and encode.  Errors: unknown label, distance not representable, backward
+/// jump to a later label / forward jump to an earlier one.
+pub fn assemble(items: &[Asm]) -> Result<Vec<u32>, String> {
+    let mut pos = BTreeMap::new();
+    let mut at = 0usize;
+    for it in items {
+        if let Asm::Label(l) = it {
+            pos.insert(*l, at);
+        }
+        at += it.words();
+    }
+    let find = |l: &u32| pos.get(l).copied().ok_or_else(|| format!("unknown label {l}"));
+    let fit = |v: usize, bits: u32, what: &str| if (v as u64) < (1u64 << bits) { Ok(v as u32) } else { Err(format!("{what}: {v} does not fit {bits} bits")) };
+    let mut out = Vec::with_capacity(at);
+    for it in items {
+        let i = out.len();
+        match it {
+            Asm::Label(_) => {}
+            Asm::I(x) => out.push(w(*x)),
+            Asm::Raw(x) => out.push(*x),
+            Asm::Ji(l) => out.push(w(op::ji(fit(find(l)?, 24, "ji")?))),
+            Asm::Jnei(a, b, l) => out.push(w(op::jnei(*a, *b, fit(find(l)?, 12, "jnei")? as u16))),
+            Asm::Jnzi(a, l) => out.push(w(op::jnzi(*a, fit(find(l)?, 18, "jnzi")?))),
+            Asm::Jmp(t, l) => {
+                out.push(w(op::movi(*t, fit(find(l)?, 18, "jmp")?)));
+                out.push(w(op::jmp(*t)));
+            }
+            Asm::Jne(a, b, t, l) => {
+                out.push(w(op::movi(*t, fit(find(l)?, 18, "jne")?)));
+                out.push(w(op::jne(*a, *b, *t)));
+            }
+            Asm::Jmpf(l) | Asm::Jnzf(_, l) | Asm::Jnef(_, _, l) => {
+                let t = find(l)?;
+                if t <= i { return Err(format!("forward jump to earlier label {l}")); }
+                let k = t - i - 1;
+                out.push(match it {
+                    Asm::Jmpf(_) => w(op::jmpf(0u8, fit(k, 18, "jmpf")?)),
+                    Asm::Jnzf(a, _) => w(op::jnzf(*a, 0u8, fit(k, 12, "jnzf")? as u16)),
+                    Asm::Jnef(a, b, _) => w(op::jnef(*a, *b, 0u8, fit(k, 6, "jnef")? as u8)),
+                    _ => unreachable!(),
+                });
+            }
+            Asm::Jmpb(l) | Asm::Jnzb(_, l) | Asm::Jneb(_, _, l) => {
+                let t = find(l)?;
+                if t >= i { return Err(format!("backward jump to later label {l}")); }
+                let k = i - t - 1;
+                out.push(match it {
+                    Asm::Jmpb(_) => w(op::jmpb(0u8, fit(k, 18, "jmpb")?)),
+                    Asm::Jnzb(a, _) => w(op::jnzb(*a, 0u8, fit(k, 12, "jnzb")? as u16)),
+                    Asm::Jneb(a, b, _) => w(op::jneb(*a, *b, 0u8, fit(k, 6, "jneb")? as u8)),
+                    _ => unreachable!(),
+                });
+            }
+            Asm::JmpfDyn(t, l) | Asm::JnzfDyn(_, t, l) => {
+                let tg = find(l)?;
+                if tg <= i + 1 { return Err(format!("forward jump to earlier label {l}")); }
+                out.push(w(op::movi(*t, fit(tg - (i + 1) - 1, 18, "jmpf dyn")?)));
+                out.push(match it {
+                    Asm::JmpfDyn(..) => w(op::jmpf(*t, 0)),
+                    Asm::JnzfDyn(a, ..) => w(op::jnzf(*a, *t, 0)),
+                    _ => unreachable!(),
+                });
+            }
+            Asm::JmpbDyn(t, l) => {
+                let tg = find(l)?;
+                if tg >= i + 1 { return Err(format!("backward jump to later label {l}")); }
+                out.push(w(op::movi(*t, fit((i + 1) - tg - 1, 18, "jmpb dyn")?)));
+                out.push(w(op::jmpb(*t, 0)));
+            }
+            Asm::Jal(link, l) => out.push(w(op::jal(*link, RegId::IS, fit(find(l)?, 12, "jal")? as u16))),
+            Asm::AddrOf(d, l) => {
+                out.push(w(op::movi(*d, fit(find(l)? * 4, 18, "addrof")?)));
+                out.push(w(op::add(*d, *d, RegId::IS)));
+            }
+        }
+    }
+    Ok(out)
+}
+
+// =====================================================================================
+// 5. script-data layout and program generator
+// =====================================================================================
+/// Script data shared by all code units of a scenario (addressed as `R_DATA + offset`).
+#[derive(Clone, Debug)]
+pub struct DataLayout {
+    pub bytes: Vec<u8>,
+    /// per contract: offset of its `Call` struct (to ‖ a ‖ b); the first 32 bytes are the id
+    pub call_off: Vec<usize>,
+    pub asset_off: Vec<usize>,
+    /// a 32-byte address (TRO / SMO recipient)
+    pub addr_off: usize,
+    /// `n_keys` consecutive 32-byte storage keys (key[i+1] = key[i] + 1 for range ops)
+    pub key_off: usize,
+    pub n_keys: usize,
+    /// random bytes (signatures, messages, wide integers)
+    pub blob_off: usize,
+    pub blob_len: usize,
+    /// an id that is not deployed
+    pub missing_id_off: usize,
+}
+impl DataLayout {
+    pub fn new(rng: &mut Rng, contracts: &[ContractId], assets: &[AssetId], call_a: u64) -> DataLayout {
+        let mut bytes = vec![];
+        let mut call_off = vec![];
+        for c in contracts {
+            call_off.push(bytes.len());
+            bytes.extend(Call::new(*c, call_a, 0).to_bytes());
+        }
+        let mut asset_off = vec![];
+        for a in assets {
+            asset_off.push(bytes.len());
+            bytes.extend_from_slice(a.as_ref());
+        }
+        let addr_off = bytes.len();
+        bytes.extend(rng.bytes32());
+        let key_off = bytes.len();
+        let n_keys = 6;
+        let mut k = rng.bytes32();
+        k[31] = 0x10;
+        for i in 0..n_keys {
+            let mut ki = k;
+            ki[31] = k[31] + i as u8;
+            bytes.extend(ki);
+        }
+        let missing_id_off = bytes.len();
+        bytes.extend([0xEE; 32]);
+        let blob_off = bytes.len();
+        let blob_len = 256;
+        bytes.extend(rng.bytes(blob_len));
+        DataLayout { bytes, call_off, asset_off, addr_off, key_off, n_keys, blob_off, blob_len, missing_id_off }
+    }
+}
+
+/// number of `Variable` outputs of a generated transaction (each TRO needs a fresh one)
+pub const N_VAR_OUT: usize = 4;
+pub const F_ALU: u32 = 1 << 0;
+pub const F_MEM: u32 = 1 << 1;
+pub const F_FLOW: u32 = 1 << 2;
+pub const F_CALL: u32 = 1 << 3;
+pub const F_LOG: u32 = 1 << 4;
+pub const F_STORAGE: u32 = 1 << 5;
+pub const F_ASSET: u32 = 1 << 6;
+pub const F_INFO: u32 = 1 << 7;
+pub const F_GTF: u32 = 1 << 8;
+pub const F_CRYPTO: u32 = 1 << 9;
+pub const F_WIDE: u32 = 1 << 10;
+pub const F_GARBAGE: u32 = 1 << 11;
+pub const F_ALL: u32 = 0xFFF;
+
+#[derive(Clone, Debug)]
+pub struct GenCfg {
+    pub n_contracts: usize,
+    /// grammar items per code unit (each item is 1..~20 instructions)
+    pub unit_items: usize,
+    pub features: u32,
+    /// probability (per mille) that an item is emitted in an intentionally faulty variant
+    pub fault_per_mille: u64,
+    pub schedule: GasSchedule,
+    pub gas_limit: u64,
+    /// value of Call.a for every call = remaining recursion depth for self-recursive contracts
+    pub recursion_depth: u64,
+}
+impl Default for GenCfg {
+    fn default() -> Self {
+        GenCfg { n_contracts: 3, unit_items: 14, features: F_ALL & !F_GARBAGE, fault_per_mille: 3, schedule: GasSchedule::Default, gas_limit: 2_000_000, recursion_depth: 2 }
+    }
+}
+
+/// A generated world + transaction, ready for `trace`.
+#[derive(Clone, Debug)]
+pub struct Scenario {
+    pub world: World,
+    pub tx: TxSpec,
+    pub layout: DataLayout,
+    /// assembled code units (script first, then contracts) for printing
+    pub units: Vec<Vec<u32>>,
+    pub seed_note: String,
+}
+impl Scenario {
+    pub fn to_json(&self) -> Value {
+        json!({
+            "schedule": self.world.schedule.name(), "gas_limit": self.tx.gas_limit, "block_height": self.world.block_height,
+            "script": hex::encode(&self.tx.script), "script_data": hex::encode(&self.tx.script_data),
+            "contracts": self.world.contracts.iter().map(|c| json!({"id": hex::encode(c.id), "code": hex::encode(&c.code),
+                "balances": c.balances.iter().map(|(a, v)| json!([hex::encode(a), v])).collect::<Vec<_>>(),
+                "slots": c.slots.iter().map(|(k, v)| json!([hex::encode(k), hex::encode(v)])).collect::<Vec<_>>()})).collect::<Vec<_>>(),
+            "assets": self.world.assets.iter().map(hex::encode).collect::<Vec<_>>(),
+            "coins": self.tx.coins.iter().map(|(a, v)| json!([hex::encode(a), v])).collect::<Vec<_>>(),
+            "messages": self.tx.messages.iter().map(|(v, d)| json!([v, hex::encode(d)])).collect::<Vec<_>>(),
+            "contract_inputs": self.tx.contract_inputs.iter().map(hex::encode).collect::<Vec<_>>(),
+            "outputs": self.tx.outputs.iter().map(|o| format!("{o:?}")).collect::<Vec<_>>(),
+            "key_seed": self.tx.key_seed, "note": self.seed_note,
+        })
+    }
+    /// Rebuild a scenario from `to_json` output (for --replay).
+    pub fn from_json(v: &Value) -> Result<Scenario, String> {
+        let hx = |x: &Value| hex::decode(x.as_str().unwrap_or("")).map_err(|e| e.to_string());
+        let b32 = |x: &Value| -> Result<[u8; 32], String> { hx(x)?.try_into().map_err(|_| "not 32 bytes".to_string()) };
+        let sched = match v["schedule"].as_str().unwrap_or("default") {
+            "default" => GasSchedule::Default,
+            "unit" => GasSchedule::Unit,
+            "free" => GasSchedule::Free,
+            s => GasSchedule::Random(s.trim_start_matches("random:").parse().unwrap_or(0)),
+        };
+        let mut assets = vec![];
+        for a in v["assets"].as_array().cloned().unwrap_or_default() { assets.push(AssetId::from(b32(&a)?)); }
+        let mut world = World::new(sched, v["block_height"].as_u64().unwrap_or(0) as u32, assets);
+        for c in v["contracts"].as_array().cloned().unwrap_or_default() {
+            let mut balances = vec![];
+            for b in c["balances"].as_array().cloned().unwrap_or_default() { balances.push((AssetId::from(b32(&b[0])?), b[1].as_u64().unwrap_or(0))); }
+            let mut slots = vec![];
+            for s in c["slots"].as_array().cloned().unwrap_or_default() { slots.push((b32(&s[0])?, hx(&s[1])?)); }
+            world.deploy(ContractDef { id: ContractId::from(b32(&c["id"])?), code: hx(&c["code"])?, balances, slots });
+        }
+        let mut tx = TxSpec::new(hx(&v["script"])?, hx(&v["script_data"])?, v["gas_limit"].as_u64().unwrap_or(0));
+        for c in v["coins"].as_array().cloned().unwrap_or_default() { tx.coins.push((AssetId::from(b32(&c[0])?), c[1].as_u64().unwrap_or(0))); }
+        for m in v["messages"].as_array().cloned().unwrap_or_default() { tx.messages.push((m[0].as_u64().unwrap_or(0), hx(&m[1])?)); }
+        for c in v["contract_inputs"].as_array().cloned().unwrap_or_default() { tx.contract_inputs.push(ContractId::from(b32(&c)?)); }
+        for o in v["outputs"].as_array().cloned().unwrap_or_default() {
+            let s = o.as_str().unwrap_or("");
+            if s == "Variable" { tx.outputs.push(OutSpec::Variable); }
+            else if let Some(r) = s.strip_prefix("Change(") { tx.outputs.push(OutSpec::Change(AssetId::from(b32(&json!(r.trim_end_matches(')')))?))); }
+            else if let Some(r) = s.strip_prefix("Coin(") {
+                let r = r.trim_end_matches(')');
+                let (a, n) = r.split_once(", ").ok_or("bad coin output")?;
+                tx.outputs.push(OutSpec::Coin(AssetId::from(b32(&json!(a))?), n.parse().map_err(|_| "bad amount")?));
+            }
+        }
+        tx.key_seed = v["key_seed"].as_u64().unwrap_or(1);
+        let ids: Vec<ContractId> = world.contracts.iter().map(|c| c.id).collect();
+        let layout = DataLayout::new(&mut Rng::new(0), &ids, &world.assets.clone(), 0);
+        Ok(Scenario { world, tx, layout, units: vec![], seed_note: v["note"].as_str().unwrap_or("").to_string() })
+    }
+}
+
+#[derive(Clone, Debug)]
+struct UnitCtx {
+    /// None = script, Some(i) = contract i
+    contract: Option<usize>,
+    /// contracts this unit may call
+    callees: Vec<usize>,
+    self_recursive: bool,
+}
+
+/// The program generator.  One instance per scenario; `rng` is the only source of randomness.
+pub struct ProgGen<'a> {
+    pub rng: &'a mut Rng,
+    pub cfg: GenCfg,
+    pub layout: DataLayout,
+    pub n_assets: usize,
+    next_label: u32,
+    variable_out: Option<usize>,
+    var_used: usize,
+    cur_lvl: usize,
+    /// asset indices the script holds coins of / contracts hold balances of
+    script_assets: Vec<usize>,
+}
+
+const ALU3: [fn(u8, u8, u8) -> Instruction; 17] = [
+    |a, b, c| op::add(a, b, c), |a, b, c| op::and(a, b, c), |a, b, c| op::div(a, b, c), |a, b, c| op::eq(a, b, c),
+    |a, b, c| op::exp(a, b, c), |a, b, c| op::gt(a, b, c), |a, b, c| op::lt(a, b, c), |a, b, c| op::mlog(a, b, c),
+    |a, b, c| op::mroo(a, b, c), |a, b, c| op::mod_(a, b, c), |a, b, c| op::mul(a, b, c), |a, b, c| op::or(a, b, c),
+    |a, b, c| op::sll(a, b, c), |a, b, c| op::srl(a, b, c), |a, b, c| op::sub(a, b, c), |a, b, c| op::xor(a, b, c),
+    |a, b, c| op::add(a, b, c),
+];
+const ALUI: [fn(u8, u8, u16) -> Instruction; 11] = [
+    |a, b, i| op::addi(a, b, i), |a, b, i| op::andi(a, b, i), |a, b, i| op::divi(a, b, i), |a, b, i| op::expi(a, b, i),
+    |a, b, i| op::modi(a, b, i), |a, b, i| op::muli(a, b, i), |a, b, i| op::ori(a, b, i), |a, b, i| op::slli(a, b, i),
+    |a, b, i| op::srli(a, b, i), |a, b, i| op::subi(a, b, i), |a, b, i| op::xori(a, b, i),
+];
+
+impl<'a> ProgGen<'a> {
+    fn label(&mut self) -> u32 { self.next_label += 1; self.next_label }
+    /// random general register (destination-safe)
+    pub fn g(&mut self) -> u8 { self.rng.range(R_GEN_LO as u64, R_GEN_HI as u64) as u8 }
+    /// random source register: general, sometimes a system register or a temp
+    pub fn src(&mut self) -> u8 {
+        match self.rng.below(10) {
+            0 => *self.rng.pick(&[0u8, 1, 2, 3, 4, 5, 6, 7, 8, 9, 10, 11, 12, 13, 14, 15]),
+            _ => self.g(),
+        }
+    }
+    fn fault(&mut self) -> bool { self.rng.chance(self.cfg.fault_per_mille, 1000) }
+    fn has(&self, f: u32) -> bool { self.cfg.features & f != 0 }
+    fn small(&mut self) -> u32 {
+        match self.rng.below(6) { 0 => 0, 1 => 1, 2 => self.rng.below(64) as u32, 3 => self.rng.below(4096) as u32, _ => self.rng.below(262144) as u32 }
+    }
+    /// `t = $ssp + off` (local, writable), off + len <= LOCAL
+    fn loc(&mut self, out: &mut Vec<Asm>, t: u8, len: u32) -> u32 {
+        let off = (self.rng.below((LOCAL - len) as u64 / 8) * 8) as u32;
+        out.push(Asm::I(op::addi(t, RegId::SSP, off as u16)));
+        off
+    }
+    /// `t = $hp + off` (heap, writable once allocated), off + len <= HEAPSZ
+    fn heap(&mut self, out: &mut Vec<Asm>, t: u8, len: u32) {
+        let off = self.rng.below((HEAPSZ - len) as u64 + 1) as u32;
+        out.push(Asm::I(op::addi(t, RegId::HP, off as u16)));
+    }
+    /// `t = R_DATA + off`
+    fn data(&mut self, out: &mut Vec<Asm>, t: u8, off: usize) {
+        if off < 4096 { out.push(Asm::I(op::addi(t, R_DATA, off as u16))); }
+        else { out.push(Asm::I(op::movi(t, off as u32))); out.push(Asm::I(op::add(t, t, R_DATA))); }
+    }
+    /// writable pointer of `len` bytes in t (local mostly, heap sometimes; faulty rarely)
+    fn wptr(&mut self, out: &mut Vec<Asm>, t: u8, len: u32) {
+        if self.fault() {
+            match self.rng.below(4) {
+                0 => out.push(Asm::I(op::move_(t, R_DATA))),             // tx memory: not owned
+                1 => out.push(Asm::I(op::subi(t, RegId::HP, 8))),        // below heap: unallocated
+                2 => out.push(Asm::I(op::not(t, RegId::ZERO))),          // 2^64-1
+                _ => out.push(Asm::I(op::move_(t, RegId::ZERO))),        // address 0 (tx id)
+            }
+        } else if self.rng.chance(1, 4) { self.heap(out, t, len) } else { self.loc(out, t, len); }
+    }
+    /// readable pointer of `len` bytes in t
+    fn rptr(&mut self, out: &mut Vec<Asm>, t: u8, len: u32) {
+        match self.rng.below(4) {
+            0 => { let o = self.layout.blob_off + self.rng.below((self.layout.blob_len as u32 - len.min(255)) as u64) as usize; self.data(out, t, o) }
+            1 => self.heap(out, t, len.min(HEAPSZ)),
+            _ => { self.loc(out, t, len); }
+        }
+    }
+
+    // ---------------------------------------------------------------- items
+    fn item_alu(&mut self, out: &mut Vec<Asm>) {
+        let d = if self.fault() { *self.rng.pick(&[1u8, 3, 4, 5, 9, 10, 15]) } else { self.g() };
+        let (a, b) = (self.src(), self.src());
+        let i = match self.rng.below(12) {
+            0 => { let v = self.small(); op::movi(d, v) }
+            1 => op::move_(d, a),
+            2 => op::not(d, a),
+            3 => { let c = self.src(); op::mldv(d, a, b, c) }
+            4 | 5 | 6 => { let f = *self.rng.pick(&ALUI); let m = if self.rng.bool() { 64 } else { 4096 }; let v = self.rng.below(m) as u16; f(d, a, v) }
+            7 => { let v = self.rng.u64_biased(); // load a 64-bit boundary value: movi + shifts
+                   out.push(Asm::I(op::movi(d, (v >> 46) as u32)));
+                   out.push(Asm::I(op::slli(d, d, 18)));
+                   out.push(Asm::I(op::ori(d, d, ((v >> 34) & 0xfff) as u16)));
+                   op::slli(d, d, (self.rng.below(35)) as u16) }
+            _ => { let f = *self.rng.pick(&ALU3); f(d, a, b) }
+        };
+        out.push(Asm::I(i));
+    }
+    fn item_mem(&mut self, out: &mut Vec<Asm>) {
+        let [t0, t1, t2, ..] = R_TMP;
+        match self.rng.below(14) {
+            0 => { self.wptr(out, t0, 8); let s = self.src(); out.push(Asm::I(op::sw(t0, s, 0))) }
+            1 => { self.wptr(out, t0, 16); let s = self.src(); out.push(Asm::I(op::sb(t0, s, self.rng.below(8) as u16))) }
+            2 => { self.rptr(out, t0, 8); let d = self.g(); out.push(Asm::I(op::lw(d, t0, 0))) }
+            3 => { self.rptr(out, t0, 16); let d = self.g(); out.push(Asm::I(op::lb(d, t0, self.rng.below(8) as u16))) }
+            4 => { let n = self.rng.range(0, 96) as u32; self.wptr(out, t0, n.max(1)); out.push(Asm::I(op::mcli(t0, n))) }
+            5 => { let n = self.rng.range(0, 96) as u32; self.wptr(out, t0, n.max(1)); out.push(Asm::I(op::movi(t1, n))); out.push(Asm::I(op::mcl(t0, t1))) }
+            6 => { let n = self.rng.range(0, 64) as u32; let o = self.loc(out, t0, 64); let _ = o; self.heap(out, t1, 64); out.push(Asm::I(op::mcpi(t0, t1, n as u16))) }
+            7 => { let n = self.rng.range(0, 64) as u32; self.heap(out, t0, 64);
+                   let o = self.layout.blob_off + self.rng.below(128) as usize; self.data(out, t1, o);
+                   out.push(Asm::I(op::movi(t2, n))); out.push(Asm::I(op::mcp(t0, t1, t2))) }
+            8 => { let n = self.rng.range(0, 64) as u32; self.rptr(out, t0, 64); self.rptr(out, t1, 64); out.push(Asm::I(op::movi(t2, n)));
+                   let d = self.g(); out.push(Asm::I(op::meq(d, t0, t1, t2))) }
+            9 => { // push / pop pair around an ALU item
+                   let m = (self.rng.next() as u32) & 0x00ff_ffff & if self.rng.bool() { 0xffff } else { 0xff_ffff };
+                   let hi = self.rng.bool();
+                   out.push(Asm::I(if hi { op::pshh(m & 0x0007ff) } else { op::pshl(m) }));
+                   self.item_alu(out);
+                   out.push(Asm::I(if hi { op::poph(m & 0x0007ff) } else { op::popl(m) })) }
+            10 => { let n = (self.rng.below(32) * 8) as u32; out.push(Asm::I(op::cfei(n))); self.item_alu(out); out.push(Asm::I(op::cfsi(n))) }
+            11 => { let n = (self.rng.below(32) * 8) as u32; out.push(Asm::I(op::movi(t0, n))); out.push(Asm::I(op::cfe(t0))); out.push(Asm::I(op::cfs(t0))) }
+            12 => { let n = if self.fault() { 1 << 17 } else { self.rng.below(64) as u32 }; out.push(Asm::I(op::movi(t0, n))); out.push(Asm::I(op::aloc(t0))) }
+            _ => { self.rptr(out, t0, 8); let d = self.g();
+                   out.push(Asm::I(match self.rng.below(4) { 0 => op::lqw(d, t0, 1), 1 => op::lhw(d, t0, 1), 2 => op::lw(d, t0, 0), _ => op::lb(d, t0, 3) })) }
+        }
+    }
+    fn item_wide(&mut self, out: &mut Vec<Asm>) {
+        let [t0, t1, t2, t3, ..] = R_TMP;
+        self.wptr(out, t0, 32); self.rptr(out, t1, 32); self.rptr(out, t2, 32); self.rptr(out, t3, 32);
+        let fl = *self.rng.pick(&[0u8, 1, 2, 3, 4, 5, 6, 32, 33, 16, 48]);
+        let i = match self.rng.below(14) {
+            0 => { let d = self.g(); op::wdcm(d, t1, t2, fl & 0x27) }
+            1 => { let d = self.g(); op::wqcm(d, t1, t2, fl & 0x27) }
+            2 => op::wdop(t0, t1, t2, fl & 0x27), 3 => op::wqop(t0, t1, t2, fl & 0x27),
+            4 => op::wdml(t0, t1, t2, fl & 0x30), 5 => op::wqml(t0, t1, t2, fl & 0x30),
+            6 => op::wddv(t0, t1, t2, fl & 0x20), 7 => op::wqdv(t0, t1, t2, fl & 0x20),
+            8 => op::wdmd(t0, t1, t2, t3), 9 => op::wqmd(t0, t1, t2, t3), 10 => op::wdam(t0, t1, t2, t3),
+            11 => op::wqam(t0, t1, t2, t3), 12 => op::wdmm(t0, t1, t2, t3), _ => op::wqmm(t0, t1, t2, t3),
+        };
+        out.push(Asm::I(i));
+    }
+    fn junk(&mut self, out: &mut Vec<Asm>, n: usize) {
+        for _ in 0..n { self.item_alu(out); }
+    }
+    fn item_flow(&mut self, out: &mut Vec<Asm>, lvl: usize, ctx: &UnitCtx, subs: &[u32]) {
+        let [t0, ..] = R_TMP;
+        let choice = self.rng.below(if lvl < 2 { 16 } else { 10 });
+        match choice {
+            0..=8 => {
+                // forward skip over k junk instructions, every forward/absolute opcode
+                let l = self.label();
+                let (a, b) = (self.src(), self.src());
+                let mut body = vec![];
+                let k = self.rng.range(0, 4) as usize;
+                self.junk(&mut body, k);
+                let short = asm_words(&body) < 60;
+                let j = match choice {
+                    0 => Asm::Jmpf(l), 1 => Asm::Jnzf(a, l), 2 if short => Asm::Jnef(a, b, l), 2 => Asm::Jnzf(a, l),
+                    3 => Asm::Ji(l), 4 => Asm::Jnei(a, b, l), 5 => Asm::Jnzi(a, l), 6 => Asm::Jmp(t0, l),
+                    7 => Asm::Jne(a, b, t0, l), _ => if self.rng.bool() { Asm::JmpfDyn(t0, l) } else { Asm::JnzfDyn(a, t0, l) },
+                };
+                out.push(j); out.extend(body); out.push(Asm::Label(l));
+            }
+            9 if !subs.is_empty() => {
+                let s = *self.rng.pick(subs);
+                if self.rng.bool() { out.push(Asm::Jal(R_LINK, s)) } else { out.push(Asm::AddrOf(t0, s)); out.push(Asm::I(op::jal(R_LINK, t0, 0))) }
+            }
+            9 => self.junk(out, 1),
+            _ => {
+                // bounded loop, counter in R_CNT[lvl]
+                let cnt = R_CNT[lvl];
+                let n = self.rng.range(1, 4) as u32;
+                out.push(Asm::I(op::movi(cnt, n)));
+                let (top, exit) = (self.label(), self.label());
+                let mut body = vec![];
+                let items = self.rng.range(1, 3) as usize;
+                for _ in 0..items { self.item(&mut body, lvl + 1, ctx, subs, false); }
+                let bw = asm_words(&body);
+                if self.rng.chance(2, 3) {
+                    // do { body; cnt-- } while (cnt != 0)
+                    out.push(Asm::Label(top)); out.extend(body); out.push(Asm::I(op::subi(cnt, cnt, 1)));
+                    out.push(match self.rng.below(6) {
+                        0 => Asm::Jnzb(cnt, top), 1 if bw < 58 => Asm::Jneb(cnt, 0, top), 2 => Asm::Jnzi(cnt, top),
+                        3 => Asm::Jnei(cnt, 0, top), 4 => Asm::Jne(cnt, 0, t0, top), _ => Asm::Jnzb(cnt, top),
+                    });
+                } else {
+                    // while (cnt != 0) { body; cnt-- }
+                    out.push(Asm::Label(top));
+                    out.push(Asm::I(op::jnzf(cnt, 0u8, 1)));
+                    out.push(Asm::Jmpf(exit));
+                    out.extend(body); out.push(Asm::I(op::subi(cnt, cnt, 1)));
+                    out.push(match self.rng.below(4) { 0 => Asm::Jmpb(top), 1 => Asm::JmpbDyn(t0, top), 2 => Asm::Ji(top), _ => Asm::Jmp(t0, top) });
+                    out.push(Asm::Label(exit));
+                }
+            }
+        }
+    }
+    fn item_call(&mut self, out: &mut Vec<Asm>, ctx: &UnitCtx) {
+        let [t0, t1, t2, t3, ..] = R_TMP;
+        if ctx.callees.is_empty() { return self.junk(out, 1); }
+        let j = if self.fault() { usize::MAX } else { *self.rng.pick(&ctx.callees) };
+        let off = if j == usize::MAX { self.layout.missing_id_off } else { self.layout.call_off[j] };
+        self.data(out, t0, off);
+        // coins
+        let ai = self.rng.below(self.n_assets as u64) as usize;
+        let coins = match self.rng.below(6) { 0 | 1 | 2 => 0, 3 => 1, 4 => self.rng.below(50) as u32, _ => if self.fault() { 200_000 } else { self.rng.below(60) as u32 } };
+        out.push(Asm::I(op::movi(t1, coins)));
+        let ao = self.layout.asset_off[ai];
+        self.data(out, t2, ao);
+        // gas
+        match self.rng.below(6) {
+            0 | 1 => out.push(Asm::I(op::move_(t3, RegId::CGAS))),
+            2 => out.push(Asm::I(op::srli(t3, RegId::CGAS, 1))),
+            3 => out.push(Asm::I(op::not(t3, RegId::ZERO))),
+            4 => { let v = self.rng.below(3000) as u32; out.push(Asm::I(op::movi(t3, v))) }
+            _ => { let v = self.rng.below(200_000) as u32; out.push(Asm::I(op::movi(t3, v))) }
+        }
+        out.push(Asm::I(op::call(t0, t1, t2, t3)));
+    }
+    fn item_log(&mut self, out: &mut Vec<Asm>) {
+        let [t0, t1, ..] = R_TMP;
+        if self.rng.bool() {
+            let (a, b, c, d) = (self.src(), self.src(), self.src(), self.src());
+            out.push(Asm::I(op::log(a, b, c, d)));
+        } else {
+            let n = self.rng.range(0, 80) as u32;
+            self.rptr(out, t0, 96);
+            out.push(Asm::I(op::movi(t1, n)));
+            let (a, b) = (self.src(), self.src());
+            out.push(Asm::I(op::logd(a, b, t0, t1)));
+        }
+    }
+    fn item_storage(&mut self, out: &mut Vec<Asm>) {
+        let [t0, t1, t2, t3, ..] = R_TMP;
+        let k = self.rng.below(self.layout.n_keys as u64 - 2) as usize;
+        let ko = self.layout.key_off + 32 * k;
+        self.data(out, t0, ko);
+        let (d, s) = (self.g(), self.g());
+        let s = if s == d { R_GEN_LO + ((d - R_GEN_LO + 1) % 8) } else { s };
+        match self.rng.below(13) {
+            0 => { let v = self.src(); out.push(Asm::I(op::sww(t0, s, v))) }
+            1 => { let o = if self.fault() { 9 } else { 0 }; out.push(Asm::I(op::srw(d, s, t0, o))) }
+            2 => { let n = self.rng.range(1, 2) as u32; self.rptr(out, t1, 64); out.push(Asm::I(op::movi(t2, n))); out.push(Asm::I(op::swwq(t0, s, t1, t2))) }
+            3 => { let n = self.rng.range(1, 2) as u32; self.wptr(out, t1, 64); out.push(Asm::I(op::movi(t2, n))); out.push(Asm::I(op::srwq(t1, s, t0, t2))) }
+            4 => { let n = self.rng.range(0, 2) as u32; out.push(Asm::I(op::movi(t2, n))); out.push(Asm::I(op::scwq(t0, s, t2))) }
+            5 => { let n = *self.rng.pick(&[32u32, 32, 32, 40, 64, 100, 0]); self.rptr(out, t1, 100); out.push(Asm::I(op::movi(t2, n))); out.push(Asm::I(op::swrd(t0, t1, t2))) }
+            6 => { let n = *self.rng.pick(&[32u16, 32, 32, 40, 64, 100, 1]); self.rptr(out, t1, 100); out.push(Asm::I(op::swri(t0, t1, n))) }
+            7 => { let n = self.rng.range(0, 24) as u32; self.wptr(out, t1, 64); out.push(Asm::I(op::movi(t2, self.rng.below(8) as u32))); out.push(Asm::I(op::movi(t3, n))); out.push(Asm::I(op::srdd(t1, t0, t2, t3))) }
+            8 => { self.wptr(out, t1, 64); out.push(Asm::I(op::movi(t2, self.rng.below(8) as u32))); out.push(Asm::I(op::srdi(t1, t0, t2, self.rng.below(24) as u8))) }
+            9 => { let n = self.rng.range(0, 40) as u32; self.rptr(out, t1, 64); let o = if self.rng.chance(3, 4) { 0 } else { self.rng.below(24) as u32 }; out.push(Asm::I(op::movi(t2, o))); out.push(Asm::I(op::movi(t3, n))); out.push(Asm::I(op::supd(t0, t1, t2, t3))) }
+            10 => { self.rptr(out, t1, 64); let o = if self.rng.chance(3, 4) { 0 } else { self.rng.below(24) as u32 }; out.push(Asm::I(op::movi(t2, o))); out.push(Asm::I(op::supi(t0, t1, t2, self.rng.below(33) as u8))) }
+            11 => { out.push(Asm::I(op::movi(t2, self.rng.range(0, 2) as u32))); out.push(Asm::I(op::sclr(t0, t2))) }
+            _ => out.push(Asm::I(op::spld(d, t0))),
+        }
+    }
+    fn item_asset(&mut self, out: &mut Vec<Asm>, ctx: &UnitCtx) {
+        let [t0, t1, t2, t3, ..] = R_TMP;
+        let ai = self.rng.below(self.n_assets as u64) as usize;
+        let ao = self.layout.asset_off[ai];
+        let n_c = self.layout.call_off.len();
+        let amount = if self.fault() { *self.rng.pick(&[0u32, 250_000]) } else { match self.rng.below(4) { 0 => 1, _ => self.rng.range(1, 40) as u32 } };
+        match self.rng.below(8) {
+            0 if n_c > 0 => { let c = self.rng.below(n_c as u64) as usize; self.data(out, t0, ao); let co = self.layout.call_off[c]; self.data(out, t1, co);
+                              let d = self.g(); out.push(Asm::I(op::bal(d, t0, t1))) }
+            1 if n_c > 0 => { let c = self.rng.below(n_c as u64) as usize; let co = self.layout.call_off[c]; self.data(out, t0, co); out.push(Asm::I(op::movi(t1, amount)));
+                              self.data(out, t2, ao); out.push(Asm::I(op::tr(t0, t1, t2))) }
+            2 if (self.variable_out.is_some() && self.cur_lvl == 0 && self.var_used < N_VAR_OUT) || self.fault() => { let ad = self.layout.addr_off; self.data(out, t0, ad);
+                   let flt = self.fault(); let idx = match self.variable_out { Some(i) if !flt => { self.var_used += 1; (i + self.var_used - 1) as u32 } _ => 77 };
+                   out.push(Asm::I(op::movi(t1, idx))); out.push(Asm::I(op::movi(t2, amount))); self.data(out, t3, ao);
+                   out.push(Asm::I(op::tro(t0, t1, t2, t3))) }
+            3 | 4 if ctx.contract.is_some() || self.fault() => {
+                   let so = self.layout.key_off + 32 * self.rng.below(2) as usize; self.data(out, t0, so); out.push(Asm::I(op::movi(t1, amount)));
+                   out.push(Asm::I(if self.rng.chance(5, 6) { op::mint(t1, t0) } else { op::burn(t1, t0) })) }
+            5 => { let ad = self.layout.addr_off; self.data(out, t0, ad); self.rptr(out, t1, 64); out.push(Asm::I(op::movi(t2, self.rng.below(48) as u32)));
+                   out.push(Asm::I(op::movi(t3, amount.min(30)))); out.push(Asm::I(op::smo(t0, t1, t2, t3))) }
+            _ => self.junk(out, 1),
+        }
+    }
+    fn item_info(&mut self, out: &mut Vec<Asm>) {
+        let [t0, t1, t2, t3, ..] = R_TMP;
+        let n_c = self.layout.call_off.len();
+        let co = if n_c == 0 || self.fault() { self.layout.missing_id_off } else { self.layout.call_off[self.rng.below(n_c as u64) as usize] };
+        let d = self.g();
+        let lo = if n_c == 0 && co != self.layout.missing_id_off { 3 } else if n_c == 0 && !self.rng.chance(1, 6) { 3 } else { 0 };
+        match self.rng.range(lo, 7) {
+            0 => { self.wptr(out, t0, 32); self.data(out, t1, co); out.push(Asm::I(op::croo(t0, t1))) }
+            1 => { self.data(out, t1, co); out.push(Asm::I(op::csiz(d, t1))) }
+            2 => { self.wptr(out, t0, 64); self.data(out, t1, co); out.push(Asm::I(op::movi(t2, (self.rng.below(6) * 4) as u32))); out.push(Asm::I(op::movi(t3, self.rng.below(64) as u32)));
+                   out.push(Asm::I(op::ccp(t0, t1, t2, t3))) }
+            3 => out.push(Asm::I(op::bhei(d))),
+            4 => { self.wptr(out, t0, 32); let h = self.src(); out.push(Asm::I(op::bhsh(t0, h))) }
+            5 => { self.wptr(out, t0, 32); out.push(Asm::I(op::cb(t0))) }
+            6 => { out.push(Asm::I(op::movi(t0, if self.fault() { 1 << 17 } else { self.rng.below(3) as u32 }))); out.push(Asm::I(op::time(d, t0))) }
+            _ => out.push(Asm::I(op::bhei(d))),
+        }
+    }
+    fn item_gtf(&mut self, out: &mut Vec<Asm>, ctx: &UnitCtx) {
+        let d = self.g();
+        if self.rng.chance(1, 4) {
+            let internal = ctx.contract.is_some() || self.fault();
+            let sel = if self.fault() { *self.rng.pick(&[99u32, GMArgs::GetCaller as u32, GMArgs::GetVerifyingPredicate as u32]) } else if internal && self.rng.bool() { GMArgs::IsCallerExternal as u32 }
+                      else { *self.rng.pick(&[GMArgs::GetChainId as u32, GMArgs::TxStart as u32, GMArgs::BaseAssetId as u32, GMArgs::GetGasPrice as u32]) };
+            out.push(Asm::I(op::gm(d, sel)));
+        } else {
+            const SEL: [GTFArgs; 22] = [GTFArgs::Type, GTFArgs::ScriptGasLimit, GTFArgs::ScriptLength, GTFArgs::ScriptDataLength, GTFArgs::TxInputsCount,
+                GTFArgs::TxOutputsCount, GTFArgs::TxWitnessesCount, GTFArgs::Script, GTFArgs::ScriptData, GTFArgs::TxInputAtIndex, GTFArgs::TxOutputAtIndex,
+                GTFArgs::TxLength, GTFArgs::InputType, GTFArgs::TxLength, GTFArgs::Type, GTFArgs::InputType, GTFArgs::OutputType,
+                GTFArgs::WitnessDataLength, GTFArgs::PolicyTypes, GTFArgs::PolicyMaxFee, GTFArgs::TxInputsCount, GTFArgs::TxOutputsCount];
+            let flt = self.fault();
+            let sel = if flt { *self.rng.pick(&[0xFFFu16, GTFArgs::InputCoinAmount as u16, GTFArgs::InputMessageData as u16, GTFArgs::OutputCoinTo as u16]) } else { *self.rng.pick(&SEL) as u16 };
+            let idx = if flt && self.rng.bool() { 1u8 } else { 0 };
+            out.push(Asm::I(op::gtf(d, idx, sel)));
+        }
+    }
+    fn item_crypto(&mut self, out: &mut Vec<Asm>) {
+        let [t0, t1, t2, t3, ..] = R_TMP;
+        let bo = self.layout.blob_off;
+        match self.rng.below(6) {
+            0 | 1 => { self.wptr(out, t0, 32); self.rptr(out, t1, 100); out.push(Asm::I(op::movi(t2, self.rng.below(100) as u32)));
+                       out.push(Asm::I(if self.rng.bool() { op::s256(t0, t1, t2) } else { op::k256(t0, t1, t2) })) }
+            2 => { self.wptr(out, t0, 64); self.data(out, t1, bo); self.data(out, t2, bo + 64); out.push(Asm::I(op::eck1(t0, t1, t2))) }
+            3 => { self.wptr(out, t0, 64); self.data(out, t1, bo + 32); self.data(out, t2, bo + 96); out.push(Asm::I(op::ecr1(t0, t1, t2))) }
+            4 => { self.data(out, t0, bo); self.data(out, t1, bo + 32); self.data(out, t2, bo + 96); out.push(Asm::I(op::movi(t3, self.rng.below(64) as u32))); out.push(Asm::I(op::ed19(t0, t1, t2, t3))) }
+            _ => { self.wptr(out, t0, 32); self.rptr(out, t1, 32); out.push(Asm::I(op::movi(t2, 32))); out.push(Asm::I(op::s256(t0, t1, t2))) }
+        }
+    }
+    /// one grammar item
+    fn item(&mut self, out: &mut Vec<Asm>, lvl: usize, ctx: &UnitCtx, subs: &[u32], allow_call: bool) {
+        self.cur_lvl = lvl;
+        let mut menu: Vec<(u32, u64)> = vec![(F_ALU, 30), (F_MEM, 16), (F_FLOW, 16), (F_LOG, 4), (F_ASSET, 5), (F_INFO, 4), (F_GTF, 4), (F_CRYPTO, 2), (F_WIDE, 3), (F_GARBAGE, 1)];
+        if allow_call { menu.push((F_CALL, 10)); }
+        if ctx.contract.is_some() { menu.push((F_STORAGE, 12)); } else if self.fault() { menu.push((F_STORAGE, 40)); }
+        let menu: Vec<(u32, u64)> = menu.into_iter().filter(|(f, _)| self.has(*f)).collect();
+        if menu.is_empty() { return self.item_alu(out); }
+        let total: u64 = menu.iter().map(|m| m.1).sum();
+        let mut x = self.rng.below(total);
+        let mut pick = menu[0].0;
+        for (f, wt) in &menu { if x < *wt { pick = *f; break; } x -= wt; }
+        match pick {
+            F_ALU => self.item_alu(out),
+            F_MEM => self.item_mem(out),
+            F_FLOW => self.item_flow(out, lvl, ctx, subs),
+            F_CALL => self.item_call(out, ctx),
+            F_LOG => self.item_log(out),
+            F_STORAGE => self.item_storage(out),
+            F_ASSET => self.item_asset(out, ctx),
+            F_INFO => self.item_info(out),
+            F_GTF => self.item_gtf(out, ctx),
+            F_CRYPTO => self.item_crypto(out),
+            F_WIDE => self.item_wide(out),
+            _ => out.push(Asm::Raw(self.rng.next() as u32)),
+        }
+    }
+
+    /// A complete code unit: prologue, items, terminator, leaf subroutines.
+    fn unit(&mut self, ctx: &UnitCtx) -> Vec<Asm> {
+        let [t0, t1, t2, ..] = R_TMP;
+        let mut out = vec![];
+        out.push(Asm::I(op::gtf(R_DATA, 0u8, GTFArgs::ScriptData as u16)));
+        out.push(Asm::I(op::cfei(LOCAL)));
+        out.push(Asm::I(op::movi(t0, HEAPSZ)));
+        out.push(Asm::I(op::aloc(t0)));
+        if self.rng.chance(39, 40) {
+            out.push(Asm::I(op::movi(t0, *self.rng.pick(&[3u32, 3, 3, 3, 3, 3, 3, 3, 3, 3, 3, 3, 3, 3, 3, 3, 3, 3, 1, 2]))));
+            out.push(Asm::I(op::flag(t0)));
+        }
+        for _ in 0..self.rng.range(2, 5) {
+            let (d, v) = (self.g(), self.small());
+            out.push(Asm::I(op::movi(d, v)));
+        }
+        let n_subs = if self.has(F_FLOW) { self.rng.below(3) as usize } else { 0 };
+        let subs: Vec<u32> = (0..n_subs).map(|_| self.label()).collect();
+        if ctx.self_recursive {
+            // if Call.a != 0: call self with a-1 (frame copied to local memory), gas = all
+            let me = ctx.contract.unwrap_or(0);
+            let skip = self.label();
+            let n = self.g();
+            out.push(Asm::I(op::lw(n, RegId::FP, (CallFrame::a_offset() / 8) as u16)));
+            out.push(Asm::I(op::jnzf(n, 0u8, 1)));
+            out.push(Asm::Jmpf(skip));
+            out.push(Asm::I(op::subi(n, n, 1)));
+            out.push(Asm::I(op::addi(t0, RegId::SSP, 0)));
+            let co = self.layout.call_off[me];
+            self.data(&mut out, t1, co);
+            out.push(Asm::I(op::mcpi(t0, t1, Call::LEN as u16)));
+            out.push(Asm::I(op::sw(t0, n, 4)));
+            let ao = self.layout.asset_off[0];
+            self.data(&mut out, t2, ao);
+            out.push(Asm::I(op::call(t0, RegId::ZERO, t2, RegId::CGAS)));
+            out.push(Asm::Label(skip));
+        }
+        for _ in 0..self.cfg.unit_items {
+            self.item(&mut out, 0, ctx, &subs, true);
+        }
+        // terminator
+        match self.rng.below(12) {
+            0 => { let r = self.src(); out.push(Asm::I(op::rvrt(r))) }
+            1 | 2 | 3 => { self.rptr(&mut out, t0, 64); out.push(Asm::I(op::movi(t1, self.rng.below(64) as u32))); out.push(Asm::I(op::retd(t0, t1))) }
+            4 if self.has(F_GARBAGE) => {} // fall off the end
+            _ => { let r = self.src(); out.push(Asm::I(op::ret(r))) }
+        }
+        for s in subs {
+            out.push(Asm::Label(s));
+            let k = self.rng.range(1, 4) as usize;
+            self.junk(&mut out, k);
+            out.push(Asm::I(op::jal(RegId::ZERO, R_LINK, 0)));
+        }
+        out
+    }
+}
+
+/// Generate a world with `cfg.n_contracts` contracts (contract i may call contracts j > i;
+/// the last one is sometimes self-recursive through `Call.a`), a script calling into them, coin
+/// inputs of every asset, change/variable outputs.
+pub fn gen_scenario(rng: &mut Rng, cfg: &GenCfg) -> Scenario {
+    let n_assets = 3usize;
+    let mut assets: Vec<AssetId> = vec![AssetId::from(rng.bytes32())];
+    for _ in 1..n_assets { assets.push(AssetId::from(rng.bytes32())); }
+    if rng.chance(1, 3) { assets[0] = AssetId::zeroed(); }
+    let block_height = rng.range(1, 50) as u32;
+    let mut world = World::new(cfg.schedule.clone(), block_height, assets.clone());
+    let ids: Vec<ContractId> = (0..cfg.n_contracts).map(|_| ContractId::from(rng.bytes32())).collect();
+    let layout = DataLayout::new(rng, &ids, &assets, cfg.recursion_depth);
+    let has_var = rng.chance(3, 4);
+    let n_c = cfg.n_contracts;
+    let mut pg = ProgGen { rng, cfg: cfg.clone(), layout: layout.clone(), n_assets, next_label: 0, variable_out: if has_var { Some(n_c) } else { None }, var_used: 0, cur_lvl: 0, script_assets: (0..n_assets).collect() };
+    let _ = &pg.script_assets;
+    let mut units = vec![];
+    let mut contract_words = vec![];
+    for i in 0..n_c {
+        let callees: Vec<usize> = ((i + 1)..n_c).collect();
+        let self_recursive = i + 1 == n_c && pg.has(F_CALL) && pg.rng.chance(1, 2);
+        let ctx = UnitCtx { contract: Some(i), callees, self_recursive };
+        let items = pg.unit(&ctx);
+        let words = assemble(&items).unwrap_or_else(|e| { let _ = e; vec![w(op::ret(RegId::ONE))] });
+        contract_words.push(words);
+    }
+    let sctx = UnitCtx { contract: None, callees: (0..n_c).collect(), self_recursive: false };
+    let sitems = pg.unit(&sctx);
+    let swords = assemble(&sitems).unwrap_or_else(|_| vec![w(op::ret(RegId::ONE))]);
+    let rng = pg.rng;
+    units.push(swords.clone());
+    for (i, cw) in contract_words.iter().enumerate() {
+        let mut balances = vec![];
+        for a in &assets { if rng.chance(9, 10) { balances.push((*a, rng.range(200, 5000))); } }
+        let mut slots = vec![];
+        for k in 0..layout.n_keys {
+            if rng.chance(1, 2) {
+                let mut key = [0u8; 32];
+                key.copy_from_slice(&layout.bytes[layout.key_off + 32 * k..layout.key_off + 32 * k + 32]);
+                let len = *rng.pick(&[32usize, 32, 32, 32, 32, 40, 64]);
+                slots.push((key, rng.bytes(len)));
+            }
+        }
+        world.deploy(ContractDef { id: ids[i], code: words_to_bytes(cw), balances, slots });
+        units.push(cw.clone());
+    }
+    let mut tx = TxSpec::new(words_to_bytes(&swords), layout.bytes.clone(), cfg.gas_limit);
+    tx.key_seed = rng.next();
+    for a in &assets { tx.coins.push((*a, rng.range(100, 100_000))); }
+    if rng.chance(1, 4) { tx.coins.push((assets[1 % assets.len()], rng.range(1, 1000))); }
+    if rng.chance(1, 4) { tx.messages.push((rng.range(1, 5000), if rng.bool() { vec![] } else { rng.bytes_upto(24) })); }
+    tx.contract_inputs = ids.clone();
+    if rng.chance(1, 60) && !tx.contract_inputs.is_empty() { tx.contract_inputs.pop(); } // a callee not listed as input
+    if has_var { for _ in 0..N_VAR_OUT { tx.outputs.push(OutSpec::Variable); } }
+    for a in &assets { if rng.chance(2, 3) { tx.outputs.push(OutSpec::Change(*a)); } }
+    if rng.chance(1, 4) { tx.outputs.push(OutSpec::Coin(assets[0], rng.range(0, 50))); }
+    Scenario { world, tx, layout, units, seed_note: String::new() }
+}
+
+/// A script of raw (mostly random) words, no contracts: the "garbage" stream.
+pub fn gen_garbage_scenario(rng: &mut Rng, schedule: GasSchedule, words: usize, gas_limit: u64) -> Scenario {
+    let assets = vec![AssetId::from(rng.bytes32())];
+    let mut world = World::new(schedule, 3, assets.clone());
+    let id = ContractId::from(rng.bytes32());
+    world.deploy(ContractDef { id, code: words_to_bytes(&[w(op::ret(RegId::ONE))]), balances: vec![], slots: vec![] });
+    let layout = DataLayout::new(rng, &[id], &assets, 0);
+    let mut ws = vec![];
+    for _ in 0..words {
+        ws.push(match rng.below(4) {
+            0 => rng.next() as u32,
+            1 => ((*rng.pick(&[0x10u8, 0x50, 0x72, 0x5d, 0x5f, 0x13, 0x90, 0x73, 0x74, 0x76, 0x99, 0x24, 0x47, 0x91, 0x26]) as u32) << 24) | (rng.next() as u32 & 0xff_ffff),
+            2 => w(op::movi(rng.range(16, 63) as u8, rng.below(1 << 18) as u32)),
+            _ => w(op::noop()),
+        });
+    }
+    let mut tx = TxSpec::new(words_to_bytes(&ws), layout.bytes.clone(), gas_limit);
+    tx.key_seed = rng.next();
+    tx.coins.push((assets[0], 1000));
+    tx.contract_inputs = vec![id];
+    Scenario { world, tx, layout, units: vec![ws], seed_note: "garbage".into() }
+}
+
+// =====================================================================================
+// 6. printers
+// =====================================================================================
+pub fn receipt_json(r: &Receipt) -> Value {
+    serde_json::to_value(r).unwrap_or(Value::Null)
+}
+pub fn regs_json(r: &[u64; VM_REGISTER_COUNT]) -> Value {
+    json!(r.to_vec())
+}
+pub fn step_json(s: &Step) -> Value {
+    json!({
+        "index": s.index, "kind": format!("{:?}", s.kind), "pc": s.pc, "raw": s.raw, "op": s.mnemonic, "opcode": s.opcode,
+        "regs": s.reg_args, "imm": s.imm, "before": regs_json(&s.regs_before), "after": regs_json(&s.regs_after),
+        "mem": s.mem_diff.iter().map(|d| json!([d.addr, hex::encode(&d.old), hex::encode(&d.new)])).collect::<Vec<_>>(),
+        "receipts": s.receipts.iter().map(receipt_json).collect::<Vec<_>>(),
+        "ctx": match &s.ctx_before { Ctx::Script => "script".to_string(), Ctx::Contract(c) => hex::encode(c) },
+        "depth": [s.frames_before.len(), s.frames_after.len()],
+        "outcome": s.outcome.name(), "storage": s.storage.iter().map(|e| e.to_json()).collect::<Vec<_>>(),
+    })
+}
+/// compact JSON of a trace (`full` adds every step)
+pub fn trace_json(t: &Trace, full: bool) -> Value {
+    let mut ops: BTreeMap<String, u64> = BTreeMap::new();
+    for s in &t.steps { *ops.entry(s.mnemonic.clone()).or_insert(0) += 1; }
+    let mut v = json!({
+        "steps": t.steps.len(), "final": format!("{:?}", t.final_state), "gas_limit": t.gas_limit, "gas_used": t.gas_used,
+        "script_result": t.script_result, "receipts": t.receipts.iter().map(receipt_json).collect::<Vec<_>>(),
+        "ops": ops, "final_regs": regs_json(&t.regs_final), "tx_id": hex::encode(t.tx_id),
+    });
+    if full { v["trace"] = json!(t.steps.iter().map(step_json).collect::<Vec<_>>()); }
+    v
+}
+/// `[r0; r1; ...]` as a Coq `list N`
+pub fn coq_regs(r: &[u64; VM_REGISTER_COUNT]) -> String {
+    crate::coq_list(&r.iter().map(|x| x.to_string()).collect::<Vec<_>>())
+}
+pub fn coq_u64(x: u64) -> String { x.to_string() }
+pub fn coq_memdiff(d: &[MemDiff]) -> String {
+    crate::coq_list(&d.iter().map(|m| format!("({}, {}, {})", m.addr, crate::coq_bytes(&m.old), crate::coq_bytes(&m.new))).collect::<Vec<_>>())
+}
+/// byte of a panic reason (as in the receipt)
+pub fn reason_byte(r: PanicReason) -> u8 { r as u8 }
